@@ -1,7 +1,7 @@
 (* C03, the lexer on every spelling of a query WITH filters (numbers without exponent part).  Forward lemmas for the filter state under
    general FOLLOW conditions (generalised from Proofs/ReparseF.v, where what follows a token is a blank, a comma or a closing bracket),
    then the induction over the expression productions of the token grammar, threading the lexer's three stacks. *)
-From JP Require Import Base.Prelude Base.Json Model.Regex Model.Tokens Model.Lex Model.Ast Model.Parse Model.Api Spec.Types Spec.StringLit
+From JP Require Import Base.Prelude Base.Json Model.Regex Model.Tokens Model.Lex Model.Ast Model.Parse Model.Serialize Model.Api Spec.Types Spec.StringLit Spec.Printable
   Proofs.StringProofs Proofs.LexString Proofs.LexNoCrash Proofs.LexInv Proofs.Requery Proofs.Reparse Proofs.ReparseF Proofs.ParseComplete Proofs.ParseSound
   Proofs.LexShape Proofs.LexSpell Proofs.AbnfDerive Proofs.TextSound Proofs.EvalProofs Proofs.LexComplete.
 From Coq Require Import ZifyBool ZifyN.
@@ -134,4 +134,983 @@ Proof.
   rewrite (float_rm sign d ds' f fs' c r Hs Hd1 Hd2 Hf1 Hf2 Hc).
   - f_equal. unfold zlen. repeat (progress (rewrite ?app_length; cbn [length])). lia.
   - repeat (progress (rewrite ?app_length; cbn [length])). lia.
+Qed.
+
+(* ---- the step and reach lemmas of Proofs/LexComplete.v for arbitrary filter stacks and an arbitrary outer bracket stack ---- *)
+Section GS.
+Variables (fd : Z) (ffd fcs : list Z).
+Notation C0 := (G fd ffd fcs).
+Lemma ws_skip_g b rest p bs T : blanks b -> nb_head rest ->
+  l_ignore_ws (C0 (b ++ rest) p bs T) = Some (match b with [] => false | _ => true end, C0 rest (p + zlen b) bs T).
+Proof.
+  intros Hb Hr. unfold l_ignore_ws, G. cbn [l_cur LX]. unfold l_accept_match. cbn [l_rest LX]. destruct b as [|c b'].
+  - cbn [app]. assert (E : re_match RE_WHITESPACE rest = None).
+    { unfold re_match. destruct rest as [|d r]; [apply ws_no_match_nil | apply ws_no_match; rewrite blank_ws; exact Hr]. }
+    rewrite E. f_equal. f_equal. apply GX_pos. unfold zlen. cbn [length]. lia.
+  - rewrite (ws_match (c :: b') rest ltac:(discriminate) Hb Hr). rewrite advance_app. reflexivity.
+Qed.
+
+(* ---- names ---- *)
+Lemma seg_ws_g b X p bs T : blanks b -> nbh X -> lex_step SSegment (C0 (b ++ X) p bs T) = lex_step SSegment (C0 X (p + zlen b) bs T).
+Proof.
+  intros Hb HX. pose proof (nbh_nb X HX) as Hn. destruct HX as (c & r & -> & Hc). cbn [lex_step].
+  pose proof (ws_skip_g [] (c :: r) (p + zlen b) bs T eq_refl Hn) as E0. cbn [app] in E0.
+  rewrite (ws_skip_g b (c :: r) p bs T Hb Hn), E0.
+  replace (p + zlen b + zlen (@nil N)) with (p + zlen b) by (unfold zlen; cbn [length]; lia).
+  unfold G. cbn [l_peek l_rest LX]. rewrite !andb_false_r. reflexivity.
+Qed.
+Lemma brk_ws_g b X p bs T : blanks b -> nbh X -> lex_step SBracket (C0 (b ++ X) p bs T) = lex_step SBracket (C0 X (p + zlen b) bs T).
+Proof.
+  intros Hb HX. pose proof (nbh_nb X HX) as Hn. cbn [lex_step].
+  pose proof (ws_skip_g [] X (p + zlen b) bs T eq_refl Hn) as E0. cbn [app] in E0.
+  rewrite (ws_skip_g b X p bs T Hb Hn), E0.
+  replace (p + zlen b + zlen (@nil N)) with (p + zlen b) by (unfold zlen; cbn [length]; lia). reflexivity.
+Qed.
+
+Lemma sh_wild_g r s q bs T : lex_step SShorthand (GX fd ffd fcs (42%N :: r) [46%N] s q bs T) = LNext SSegment (C0 r (q + 1) bs (tk T_WILD [42%N] q :: T)).
+Proof.
+  cbn [lex_step]. cbv zeta. rewrite (acc_ws_no (l_ignore (GX fd ffd fcs (42%N :: r) [46%N] s q bs T)) 42 r eq_refl eq_refl). reflexivity.
+Qed.
+Lemma sh_name_g nm r s q bs T : name_shape nm -> nn_head r ->
+  lex_step SShorthand (GX fd ffd fcs (nm ++ r) [46%N] s q bs T) = LNext SSegment (C0 r (q + zlen nm) bs (tk T_PROPERTY nm q :: T)).
+Proof.
+  intros Hn Hr. pose proof (name_match nm r Hn Hr) as Hm. destruct Hn as (c & cs & -> & Hc & Hcs). destruct (name_first_facts c Hc) as (B & E42 & _ & _).
+  cbn [lex_step app]. cbv zeta. rewrite ign_GX. rewrite (acc_ws_no (GX fd ffd fcs (c :: cs ++ r) [] q q bs T) c (cs ++ r) eq_refl B).
+  change (l_next (GX fd ffd fcs (c :: cs ++ r) [] q q bs T)) with (Some c, GX fd ffd fcs (cs ++ r) [c] q (q + 1) bs T). cbv beta iota. cbn [ceq]. rewrite E42.
+  change (l_backup (GX fd ffd fcs (cs ++ r) [c] q (q + 1) bs T)) with (Some (GX fd ffd fcs ((c :: cs) ++ r) [] q (q + 1 - 1) bs T)). cbv iota.
+  unfold l_accept_match. cbn [l_rest LX]. rewrite Hm. rewrite advance_app.
+  rewrite emit_GX, app_nil_r, rev_involutive. unfold G. f_equal. replace (q + 1 - 1 + zlen (c :: cs)) with (q + zlen (c :: cs)) by lia. reflexivity.
+Qed.
+
+Lemma seg_dd_g b r p T bs : blanks b ->
+  lex_step SSegment (C0 (b ++ 46%N :: 46%N :: r) p bs T) = LNext SDescendant (C0 r (p + zlen b + 2) bs (tk T_DOUBLE_DOT [46; 46]%N (p + zlen b) :: T)).
+Proof.
+  intros Hb. cbn [lex_step]. rewrite (ws_skip_g b (46%N :: 46%N :: r) p bs T Hb eq_refl). unfold G. cbn. rewrite andb_false_r. cbn. lx_eq.
+Qed.
+
+(* ---- reaching the state after one token, from the spelled text: blanks, the token's extra characters, its text ---- *)
+Lemma reach_ws_g st b X p bs T : (st = SSegment \/ st = SBracket) -> blanks b -> nbh X -> reachS st (C0 (b ++ X) p bs T) st (C0 X (p + zlen b) bs T).
+Proof. intros [-> | ->] Hb HX; apply reachS_sim; apply sim_of_step; [apply seg_ws_g | apply brk_ws_g]; assumption. Qed.
+Lemma seg_dot_g x r p T bs : N.eqb x 46 = false -> lex_step SSegment (C0 (46%N :: x :: r) p bs T) = LNext SShorthand (GX fd ffd fcs (x :: r) [46%N] p (p + 1) bs T).
+Proof.
+  intros Hx. cbn [lex_step]. pose proof (ws_skip_g [] (46%N :: x :: r) p bs T eq_refl eq_refl) as E0. cbn [app] in E0. rewrite E0.
+  replace (p + zlen (@nil N)) with p by (unfold zlen; cbn [length]; lia). unfold G.
+  change (l_peek (GX fd ffd fcs (46%N :: x :: r) [] p p bs T)) with (Some 46%N). cbv iota. cbn [andb].
+  change (l_next (GX fd ffd fcs (46%N :: x :: r) [] p p bs T)) with (Some 46%N, GX fd ffd fcs (x :: r) [46%N] p (p + 1) bs T). cbv beta iota.
+  change (N.eqb 46 46) with true. cbv iota. change (l_peek (GX fd ffd fcs (x :: r) [46%N] p (p + 1) bs T)) with (Some x). cbn [ceq]. rewrite Hx. reflexivity.
+Qed.
+
+Lemma R_prop_g b nm fr p T bs : blanks b -> name_shape nm -> nn_head fr ->
+  exists p' i, reachS SSegment (C0 (b ++ [46%N] ++ nm ++ fr) p bs T) SSegment (C0 fr p' bs (tk T_PROPERTY nm i :: T)).
+Proof.
+  intros Hb Hn Hf. pose proof Hn as (c & cs & E & Hc & Hcs). destruct (name_first_facts c Hc) as (_ & _ & E46 & _).
+  eexists; eexists. eapply reachS_trans; [apply (reach_ws_g SSegment b ([46%N] ++ nm ++ fr) p bs T (or_introl eq_refl) Hb (nbh_cons 46 _ eq_refl))|].
+  subst nm. cbn [app]. eapply reachS_trans; [apply reachS_step; apply (seg_dot_g c (cs ++ fr) _ T _ E46)|].
+  apply reachS_step. apply (sh_name_g (c :: cs) fr _ _ bs T); [exists c, cs; auto | exact Hf].
+Qed.
+Lemma R_wild_sh_g b fr p T bs : blanks b -> exists p' i, reachS SSegment (C0 (b ++ [46%N] ++ [42%N] ++ fr) p bs T) SSegment (C0 fr p' bs (tk T_WILD [42%N] i :: T)).
+Proof.
+  intros Hb. eexists; eexists. eapply reachS_trans; [apply (reach_ws_g SSegment b ([46%N] ++ [42%N] ++ fr) p bs T (or_introl eq_refl) Hb (nbh_cons 46 _ eq_refl))|].
+  cbn [app]. eapply reachS_trans; [apply reachS_step; apply (seg_dot_g 42 fr _ T _ eq_refl)|]. apply reachS_step. apply sh_wild_g.
+Qed.
+Lemma R_dd_g b fr p T bs : blanks b -> exists p' i, reachS SSegment (C0 (b ++ [46; 46]%N ++ fr) p bs T) SDescendant (C0 fr p' bs (tk T_DOUBLE_DOT [46; 46]%N i :: T)).
+Proof. intros Hb. eexists; eexists. apply reachS_step. apply seg_dd_g. exact Hb. Qed.
+Lemma R_lb_g b fr p T bs : blanks b -> exists p' i j, reachS SSegment (C0 (b ++ [91%N] ++ fr) p bs T) SBracket (C0 fr p' ((91%N, j) :: bs) (tk T_LBRACKET [91%N] i :: T)).
+Proof.
+  intros Hb. eexists; eexists; eexists. eapply reachS_trans; [apply (reach_ws_g SSegment b ([91%N] ++ fr) p bs T (or_introl eq_refl) Hb (nbh_cons 91 _ eq_refl))|].
+  apply reachS_step. cbn [app]. apply (Requery.step_seg_open fd ffd fcs bs fr _ T).
+Qed.
+
+
+(* after ".." *)
+Lemma D_wild_g fr p T bs : exists p' i, reachS SDescendant (C0 ([42%N] ++ fr) p bs T) SSegment (C0 fr p' bs (tk T_WILD [42%N] i :: T)).
+Proof. eexists; eexists. apply reachS_step. reflexivity. Qed.
+Lemma D_lb_g fr p T bs : exists p' i j, reachS SDescendant (C0 ([91%N] ++ fr) p bs T) SBracket (C0 fr p' ((91%N, j) :: bs) (tk T_LBRACKET [91%N] i :: T)).
+Proof. eexists; eexists; eexists. apply reachS_step. reflexivity. Qed.
+Lemma D_prop_g nm fr p T bs : name_shape nm -> nn_head fr -> exists p' i, reachS SDescendant (C0 (nm ++ fr) p bs T) SSegment (C0 fr p' bs (tk T_PROPERTY nm i :: T)).
+Proof.
+  intros Hn Hr. pose proof (name_match nm fr Hn Hr) as Hm. destruct Hn as (c & cs & -> & Hc & Hcs). destruct (name_first_facts c Hc) as (_ & E42 & _ & E91).
+  eexists; eexists. apply reachS_step. unfold G. cbn [lex_step app].
+  change (l_next (GX fd ffd fcs (c :: cs ++ fr) [] p p bs T)) with (Some c, GX fd ffd fcs (cs ++ fr) [c] p (p + 1) bs T). cbv beta iota. rewrite E42, E91.
+  change (l_backup (GX fd ffd fcs (cs ++ fr) [c] p (p + 1) bs T)) with (Some (GX fd ffd fcs ((c :: cs) ++ fr) [] p (p + 1 - 1) bs T)). cbv iota.
+  unfold l_accept_match. cbn [l_rest LX]. rewrite Hm. rewrite advance_app. rewrite emit_GX, app_nil_r, rev_involutive. reflexivity.
+Qed.
+
+(* inside brackets *)
+Lemma B_rb_g b fr p j T bs : blanks b -> exists p' i, reachS SBracket (C0 (b ++ [93%N] ++ fr) p ((91%N, j) :: bs) T) SSegment (C0 fr p' bs (tk T_RBRACKET [93%N] i :: T)).
+Proof.
+  intros Hb. eexists; eexists. eapply reachS_trans; [apply (reach_ws_g SBracket b ([93%N] ++ fr) p _ T (or_intror eq_refl) Hb (nbh_cons 93 _ eq_refl))|].
+  apply reachS_step. cbn [app]. apply (Requery.step_bracket_close fd ffd fcs bs fr _ j T).
+Qed.
+Lemma B_char_g b c t fr p bs T : blanks b -> (c = 42%N /\ t = T_WILD) \/ (c = 44%N /\ t = T_COMMA) \/ (c = 58%N /\ t = T_COLON) ->
+  exists p' i, reachS SBracket (C0 (b ++ [c] ++ fr) p bs T) SBracket (C0 fr p' bs (tk t [c] i :: T)).
+Proof.
+  intros Hb Hc. assert (Hnb : is_blank c = false) by (destruct Hc as [[-> _] | [[-> _] | [-> _]]]; reflexivity).
+  eexists; eexists. eapply reachS_trans; [apply (reach_ws_g SBracket b ([c] ++ fr) p bs T (or_intror eq_refl) Hb (nbh_cons c _ Hnb))|].
+  apply reachS_step. cbn [app]. apply (step_bracket_char fd ffd fcs c t fr _ bs T Hc).
+Qed.
+Lemma B_int_g b ds i0 c r p bs T : blanks b -> int_text_ok ds i0 -> isd c = false ->
+  exists p' i, reachS SBracket (C0 (b ++ ds ++ c :: r) p bs T) SBracket (C0 (c :: r) p' bs (tk T_INDEX ds i :: T)).
+Proof.
+  intros Hb Hi Hc. destruct (int_head_nonblank ds i0 Hi) as (d & ds' & Ed & Hd).
+  eexists; eexists. eapply reachS_trans; [apply (reach_ws_g SBracket b (ds ++ c :: r) p bs T (or_intror eq_refl) Hb)|].
+  { rewrite Ed. cbn [app]. apply nbh_cons. exact Hd. }
+  apply reachS_step. apply (step_bracket_int fd ffd fcs ds i0 c r _ bs T Hi Hc).
+Qed.
+Lemma B_str_g b q body fr p bs T : blanks b -> qok q -> lex_ok q body = true ->
+  exists p' i, reachS SBracket (C0 (b ++ [q] ++ body ++ [q] ++ fr) p bs T) SBracket (C0 fr p' bs (tk (tt_of q) body i :: T)).
+Proof.
+  intros Hb Hq Hl. assert (Hnb : is_blank q = false) by (destruct Hq as [-> | ->]; reflexivity).
+  eexists; eexists. eapply reachS_trans; [apply (reach_ws_g SBracket b ([q] ++ body ++ [q] ++ fr) p bs T (or_intror eq_refl) Hb (nbh_cons q _ Hnb))|].
+  cbn [app]. set (p1 := p + zlen b).
+  assert (E1 : lex_step SBracket (C0 (q :: body ++ q :: fr) p1 bs T) = LNext (SString q false) (GX fd ffd fcs (body ++ q :: fr) [q] p1 (p1 + 1) bs T)).
+  { cbn [lex_step]. pose proof (ws_skip_g [] (q :: body ++ q :: fr) p1 bs T eq_refl Hnb) as E0. cbn [app] in E0. rewrite E0.
+    replace (p1 + zlen (@nil N)) with p1 by (unfold zlen; cbn [length]; lia). destruct Hq as [-> | ->]; reflexivity. }
+  eapply reachS_trans; [apply reachS_step; exact E1|].
+  destruct (lex_string_literal q false (GX fd ffd fcs (body ++ q :: fr) [q] p1 (p1 + 1) bs T) body fr Hq eq_refl Hl) as (k & _ & Hk).
+  eapply reachS_steps. rewrite Hk. unfold after, with_string_token, G, tk. cbn [l_pos l_fdepth l_ffd l_fcs l_bs l_toks LX]. reflexivity.
+Qed.
+
+
+End GS.
+
+(* ---- filter tokens under general FOLLOW conditions ---- *)
+Definition kwfol (x : N) : Prop := in_ranges x cls_fn_char = false /\ x <> 40%N.
+
+Lemma sf_true_g fd ffd fcs x r p bs T : kwfol x -> exists q, lex_step Lex.SFilter (GX fd ffd fcs (s_true ++ x :: r) [] p p bs T)
+  = LNext Lex.SFilter (GX fd ffd fcs (x :: r) [] q q bs (tk T_TRUE s_true p :: T)).
+Proof.
+  intros Hx. destruct Hx as [A B].
+  apply (sf_word fd ffd fcs s_true 116%N [114; 117; 101]%N (x :: r) p bs T T_TRUE eq_refl eq_refl eq_refl).
+  - intros l2 E. apply (fn_match_nocall l2 116%N [114; 117; 101]%N x r E eq_refl eq_refl A B).
+  - intros l2 E. rewrite (accept_mismatch l2 38%N [38%N] 116%N _ E ltac:(discriminate)). rewrite (accept_mismatch l2 124%N [124%N] 116%N _ E ltac:(discriminate)).
+    rewrite (accept_prefix l2 s_true (x :: r) E). reflexivity.
+Qed.
+
+Lemma sf_false_g fd ffd fcs x r p bs T : kwfol x -> exists q, lex_step Lex.SFilter (GX fd ffd fcs (s_false ++ x :: r) [] p p bs T)
+  = LNext Lex.SFilter (GX fd ffd fcs (x :: r) [] q q bs (tk T_FALSE s_false p :: T)).
+Proof.
+  intros Hx. destruct Hx as [A B].
+  apply (sf_word fd ffd fcs s_false 102%N [97; 108; 115; 101]%N (x :: r) p bs T T_FALSE eq_refl eq_refl eq_refl).
+  - intros l2 E. apply (fn_match_nocall l2 102%N [97; 108; 115; 101]%N x r E eq_refl eq_refl A B).
+  - intros l2 E. rewrite (accept_mismatch l2 38%N [38%N] 102%N _ E ltac:(discriminate)). rewrite (accept_mismatch l2 124%N [124%N] 102%N _ E ltac:(discriminate)).
+    unfold s_true. rewrite (accept_mismatch l2 116%N [114; 117; 101]%N 102%N _ E ltac:(discriminate)). rewrite (accept_prefix l2 s_false (x :: r) E). reflexivity.
+Qed.
+
+Lemma sf_null_g fd ffd fcs x r p bs T : kwfol x -> exists q, lex_step Lex.SFilter (GX fd ffd fcs (s_null ++ x :: r) [] p p bs T)
+  = LNext Lex.SFilter (GX fd ffd fcs (x :: r) [] q q bs (tk T_NULL s_null p :: T)).
+Proof.
+  intros Hx. destruct Hx as [A B].
+  apply (sf_word fd ffd fcs s_null 110%N [117; 108; 108]%N (x :: r) p bs T T_NULL eq_refl eq_refl eq_refl).
+  - intros l2 E. apply (fn_match_nocall l2 110%N [117; 108; 108]%N x r E eq_refl eq_refl A B).
+  - intros l2 E. rewrite (accept_mismatch l2 38%N [38%N] 110%N _ E ltac:(discriminate)). rewrite (accept_mismatch l2 124%N [124%N] 110%N _ E ltac:(discriminate)).
+    unfold s_true, s_false. rewrite (accept_mismatch l2 116%N [114; 117; 101]%N 110%N _ E ltac:(discriminate)). rewrite (accept_mismatch l2 102%N [97; 108; 115; 101]%N 110%N _ E ltac:(discriminate)).
+    rewrite (accept_prefix l2 s_null (x :: r) E). reflexivity.
+Qed.
+
+Lemma sf_int_g fd ffd fcs sign body x r p bs T : (sign = [] \/ sign = [45%N]) -> body <> [] -> forallb isd body = true -> numfol x ->
+  exists q, lex_step Lex.SFilter (GX fd ffd fcs ((sign ++ body) ++ x :: r) [] p p bs T)
+  = LNext Lex.SFilter (GX fd ffd fcs (x :: r) [] q q bs (tk T_INT (sign ++ body) p :: T)).
+Proof.
+  intros Hs Hne Hd Hx.
+  assert (Hhd : exists c0 w', sign ++ body = c0 :: w' /\ (c0 = 45%N \/ isd c0 = true)).
+  { destruct Hs as [-> | ->]; cbn [app].
+    - destruct body as [|b body']; [congruence|]. cbn [forallb] in Hd. apply andb_true_iff in Hd as [Hb _]. exists b, body'. split; [reflexivity | right; exact Hb].
+    - exists 45%N, body. split; [reflexivity | left; reflexivity]. }
+  destruct Hhd as (c0 & w' & Ew & Hc0).
+  assert (Hfacts : in_ranges c0 ws_ranges = false /\ sf_special c0 = false /\ in_ranges c0 cls_fn_first = false /\ 38%N <> c0 /\ 124%N <> c0 /\ 116%N <> c0 /\ 102%N <> c0 /\ 110%N <> c0).
+  { destruct Hc0 as [-> | Hc0]; [repeat split; try reflexivity; discriminate|]. unfold isd in Hc0. unfold sf_special, cls_fn_first. cbn [in_ranges ws_ranges].
+    repeat split; lia. }
+  destruct Hfacts as (F1 & F2 & F3 & F4 & F5 & F6 & F7 & F8).
+  apply (sf_word fd ffd fcs (sign ++ body) c0 w' (x :: r) p bs T T_INT Ew F1 F2).
+  - intros l2 E. rewrite Ew in E. cbn [app] in E. apply (fn_nomatch_l l2 c0 _ E F3).
+  - intros l2 E. pose proof E as E'. rewrite Ew in E'. cbn [app] in E'.
+    rewrite (accept_mismatch l2 38%N [38%N] c0 _ E' F4). rewrite (accept_mismatch l2 124%N [124%N] c0 _ E' F5). unfold s_true, s_false, s_null.
+    rewrite (accept_mismatch l2 116%N [114; 117; 101]%N c0 _ E' F6). rewrite (accept_mismatch l2 102%N [97; 108; 115; 101]%N c0 _ E' F7).
+    rewrite (accept_mismatch l2 110%N [117; 108; 108]%N c0 _ E' F8).
+    unfold l_accept_match. rewrite E. rewrite (float_nomatch_g sign body x r Hs Hne Hd Hx). rewrite (int_match_g sign body x r Hs Hne Hd Hx). reflexivity.
+Qed.
+
+Lemma sf_float_g fd ffd fcs sign ip fp x r p bs T : (sign = [] \/ sign = [45%N]) -> ip <> [] -> forallb isd ip = true -> fp <> [] -> forallb isd fp = true -> numfol x ->
+  exists q, lex_step Lex.SFilter (GX fd ffd fcs ((sign ++ ip ++ 46%N :: fp) ++ x :: r) [] p p bs T)
+  = LNext Lex.SFilter (GX fd ffd fcs (x :: r) [] q q bs (tk T_FLOAT (sign ++ ip ++ 46%N :: fp) p :: T)).
+Proof.
+  intros Hs Hne Hd Hfne Hfd Hx.
+  assert (Hhd : exists c0 w', sign ++ ip ++ 46%N :: fp = c0 :: w' /\ (c0 = 45%N \/ isd c0 = true)).
+  { destruct Hs as [-> | ->]; cbn [app].
+    - destruct ip as [|b ip']; [congruence|]. cbn [forallb] in Hd. apply andb_true_iff in Hd as [Hb _]. exists b, (ip' ++ 46%N :: fp). split; [reflexivity | right; exact Hb].
+    - exists 45%N, (ip ++ 46%N :: fp). split; [reflexivity | left; reflexivity]. }
+  destruct Hhd as (c0 & w' & Ew & Hc0).
+  assert (Hfacts : in_ranges c0 ws_ranges = false /\ sf_special c0 = false /\ in_ranges c0 cls_fn_first = false /\ 38%N <> c0 /\ 124%N <> c0 /\ 116%N <> c0 /\ 102%N <> c0 /\ 110%N <> c0).
+  { destruct Hc0 as [-> | Hc0]; [repeat split; try reflexivity; discriminate|]. unfold isd in Hc0. unfold sf_special, cls_fn_first. cbn [in_ranges ws_ranges].
+    repeat split; lia. }
+  destruct Hfacts as (F1 & F2 & F3 & F4 & F5 & F6 & F7 & F8).
+  apply (sf_word fd ffd fcs (sign ++ ip ++ 46%N :: fp) c0 w' (x :: r) p bs T T_FLOAT Ew F1 F2).
+  - intros l2 E. rewrite Ew in E. cbn [app] in E. apply (fn_nomatch_l l2 c0 _ E F3).
+  - intros l2 E. pose proof E as E'. rewrite Ew in E'. cbn [app] in E'.
+    rewrite (accept_mismatch l2 38%N [38%N] c0 _ E' F4). rewrite (accept_mismatch l2 124%N [124%N] c0 _ E' F5). unfold s_true, s_false, s_null.
+    rewrite (accept_mismatch l2 116%N [114; 117; 101]%N c0 _ E' F6). rewrite (accept_mismatch l2 102%N [97; 108; 115; 101]%N c0 _ E' F7).
+    rewrite (accept_mismatch l2 110%N [117; 108; 108]%N c0 _ E' F8).
+    unfold l_accept_match. rewrite E. rewrite (float_match_g sign ip fp x r Hs Hne Hd Hfne Hfd Hx). reflexivity.
+Qed.
+
+(* comparison operators: two-character ones whatever follows, "<" and ">" unless "=" follows *)
+Definition op_text (o : cmpop) : list N := op_str o.
+Lemma sf_cmp_g fd ffd fcs o x r p bs T : ((o = OLt \/ o = OGt) -> x <> 61%N) ->
+  exists q, lex_step Lex.SFilter (GX fd ffd fcs (op_str o ++ x :: r) [] p p bs T) = LNext Lex.SFilter (GX fd ffd fcs (x :: r) [] q q bs (tk (cmp_tok o) (op_str o) p :: T)).
+Proof.
+  intros Hx. destruct o; cbn [op_str app]; cbn [lex_step]; rewrite ignore_ws_nonws by reflexivity; eexists;
+    try reflexivity.
+  - cbn. unfold emit2, ceq, l_peek. cbn. assert (E : N.eqb x 61 = false) by (apply N.eqb_neq; apply Hx; left; reflexivity). rewrite E. reflexivity.
+  - cbn. unfold emit2, ceq, l_peek. cbn. assert (E : N.eqb x 61 = false) by (apply N.eqb_neq; apply Hx; right; reflexivity). rewrite E. reflexivity.
+Qed.
+
+(* ================= every spelling of every query (numbers without exponent) ======================================================== *)
+Definition st_of (a : ast) : lstate := match am a with MSeg => SSegment | MDesc => SDescendant | MBrk => SBracket | MFil => Lex.SFilter end.
+Definition LA (a : ast) (rest : list N) (p : Z) (bs : list (N * Z)) (T : list token) : lexer := G (afd a) (affd a) (afcs a) rest p bs T.
+
+(* what may follow an expression: blanks, then a closing bracket or parenthesis, a comma, or the first character of an operator *)
+Definition ech (c : N) : Prop := c = 93%N \/ c = 44%N \/ c = 41%N \/ c = 38%N \/ c = 124%N \/ c = 61%N \/ c = 33%N \/ c = 60%N \/ c = 62%N.
+Definition efol (fr : list N) : Prop := exists b c r, fr = b ++ c :: r /\ blanks b /\ ech c.
+Definition bch (h : N) : Prop := is_blank h = true \/ ech h.
+Lemma efol_head fr : efol fr -> exists h r, fr = h :: r /\ bch h.
+Proof.
+  intros (b & c & r & -> & Hb & Hc). destruct b as [|h b']; [exists c, r; split; [reflexivity | right; exact Hc]|].
+  unfold blanks in Hb. cbn [forallb] in Hb. apply andb_true_iff in Hb as [Hh _]. exists h, (b' ++ c :: r). split; [reflexivity | left; exact Hh].
+Qed.
+Lemma bch_facts h : bch h -> numfol h /\ kwfol h /\ in_ranges h cls_name_char = false /\ isd h = false.
+Proof.
+  intros [Hb | He].
+  - unfold is_blank in Hb. assert (X : h = 32%N \/ h = 10%N \/ h = 13%N \/ h = 9%N) by lia.
+    destruct X as [-> | [-> | [-> | ->]]]; repeat split; try reflexivity; discriminate.
+  - destruct He as [-> | [-> | [-> | [-> | [-> | [-> | [-> | [-> | ->]]]]]]]]; repeat split; try reflexivity; discriminate.
+Qed.
+Lemma ech_facts c : ech c -> is_blank c = false /\ c <> 46%N /\ c <> 91%N.
+Proof. intros [-> | [-> | [-> | [-> | [-> | [-> | [-> | [-> | ->]]]]]]]]; repeat split; try reflexivity; discriminate. Qed.
+Lemma efol_nn fr : efol fr -> nn_head fr.
+Proof. intros H. destruct (efol_head fr H) as (h & r & -> & Hh). exact (proj1 (proj2 (proj2 (bch_facts h Hh)))). Qed.
+
+(* the filter state skips blanks like the others *)
+Lemma fil_ws fd ffd fcs b X p bs T : blanks b -> nbh X -> lex_step Lex.SFilter (G fd ffd fcs (b ++ X) p bs T) = lex_step Lex.SFilter (G fd ffd fcs X (p + zlen b) bs T).
+Proof.
+  intros Hb HX. pose proof (nbh_nb X HX) as Hn. cbn [lex_step].
+  pose proof (ws_skip_g fd ffd fcs [] X (p + zlen b) bs T eq_refl Hn) as E0. cbn [app] in E0.
+  rewrite (ws_skip_g fd ffd fcs b X p bs T Hb Hn), E0.
+  replace (p + zlen b + zlen (@nil N)) with (p + zlen b) by (unfold zlen; cbn [length]; lia). reflexivity.
+Qed.
+
+(* from a filter-like state to the filter state proper, in front of a token that is neither "." nor "[" *)
+Lemma to_fil a b c r p bs T : fl a -> blanks b -> is_blank c = false -> c <> 46%N -> c <> 91%N ->
+  exists p', reachS (st_of a) (LA a (b ++ c :: r) p bs T) Lex.SFilter (LA a (c :: r) p' bs T).
+Proof.
+  intros [Hm | [Hm Hd]] Hb Hc H46 H91; unfold st_of, LA; rewrite Hm.
+  - exists (p + zlen b). apply reachS_sim. apply sim_of_step. apply fil_ws; [exact Hb | apply nbh_cons; exact Hc].
+  - exists (p + zlen b). eapply reachS_trans; [apply reachS_sim; apply sim_of_step; apply (seg_ws_g (afd a) (affd a) (afcs a) b (c :: r) p bs T Hb (nbh_cons c r Hc))|].
+    apply reachS_step. unfold G. rewrite ssegment_nows by (try assumption; rewrite blank_ws; exact Hc). f_equal. apply GX_pos2. lia.
+Qed.
+
+Lemma rd_fil a T v c v' b fr p bs T0 : fl a -> blanks b -> v = c :: v' -> is_blank c = false -> c <> 46%N -> c <> 91%N ->
+  (forall p1, exists q, lex_step Lex.SFilter (GX (afd a) (affd a) (afcs a) (v ++ fr) [] p1 p1 bs T0) = LNext Lex.SFilter (GX (afd a) (affd a) (afcs a) fr [] q q bs (tk T v p1 :: T0))) ->
+  exists p' i, reachS (st_of a) (LA a (b ++ v ++ fr) p bs T0) Lex.SFilter (LA a fr p' bs (tk T v i :: T0)).
+Proof.
+  intros Hf Hb -> Hc H46 H91 Hstep. cbn [app]. destruct (to_fil a b c (v' ++ fr) p bs T0 Hf Hb Hc H46 H91) as (p1 & R1).
+  destruct (Hstep p1) as (q & E). exists q, p1. eapply reachS_trans; [exact R1|]. apply reachS_step. exact E.
+Qed.
+
+(* numbers as the theorem below covers them: sign and digits, or sign, digits, ".", digits *)
+Definition plain_tok (x : token) : Prop :=
+  (ty x = T_INT -> exists sign body, tval x = sign ++ body /\ (sign = [] \/ sign = [45%N]) /\ body <> [] /\ forallb isd body = true) /\
+  (ty x = T_FLOAT -> exists sign ip fp, tval x = sign ++ ip ++ 46%N :: fp /\ (sign = [] \/ sign = [45%N]) /\ ip <> [] /\ forallb isd ip = true /\ fp <> [] /\ forallb isd fp = true).
+Definition plain (t : list token) : Prop := Forall plain_tok t.
+Lemma plain_app t1 t2 : plain (t1 ++ t2) -> plain t1 /\ plain t2.
+Proof. apply Forall_app. Qed.
+
+Lemma sf_dquote fd ffd fcs r p bs T : lex_step Lex.SFilter (GX fd ffd fcs (34%N :: r) [] p p bs T) = LNext (SString 34 true) (GX fd ffd fcs r [34%N] p (p + 1) bs T).
+Proof. cbn [lex_step]. rewrite ignore_ws_nonws by reflexivity. reflexivity. Qed.
+
+Lemma F_str a b q body fr p bs T : fl a -> blanks b -> qok q -> lex_ok q body = true ->
+  exists p' i, reachS (st_of a) (LA a (b ++ [q] ++ body ++ [q] ++ fr) p bs T) Lex.SFilter (LA a fr p' bs (tk (tt_of q) body i :: T)).
+Proof.
+  intros Hf Hb Hq Hl. assert (Hq3 : is_blank q = false /\ q <> 46%N /\ q <> 91%N) by (destruct Hq as [-> | ->]; repeat split; try reflexivity; discriminate).
+  destruct Hq3 as (Q1 & Q2 & Q3). cbn [app]. destruct (to_fil a b q (body ++ q :: fr) p bs T Hf Hb Q1 Q2 Q3) as (p1 & R1).
+  assert (E1 : lex_step Lex.SFilter (LA a (q :: body ++ q :: fr) p1 bs T) = LNext (SString q true) (GX (afd a) (affd a) (afcs a) (body ++ q :: fr) [q] p1 (p1 + 1) bs T)).
+  { unfold LA, G. destruct Hq as [-> | ->]; [apply sf_quote | apply sf_dquote]. }
+  destruct (lex_string_literal q true (GX (afd a) (affd a) (afcs a) (body ++ q :: fr) [q] p1 (p1 + 1) bs T) body fr Hq eq_refl Hl) as (k & _ & Hk).
+  eexists; eexists. eapply reachS_trans; [exact R1|]. eapply reachS_trans; [apply reachS_step; exact E1|]. eapply reachS_steps. rewrite Hk.
+  unfold after, with_string_token, LA, G, tk. cbn [l_pos l_fdepth l_ffd l_fcs l_bs l_toks LX]. reflexivity.
+Qed.
+
+Section FULL.
+Variable cfg : envcfg.
+Notation QT := (QT cfg). Notation SegT := (SegT cfg). Notation SelsT := (SelsT cfg). Notation SelT := (SelT cfg). Notation ET := (ET cfg).
+Notation CT := (CT cfg). Notation TT := (TT cfg). Notation ArgsT := (ArgsT cfg). Notation ArgT := (ArgT cfg).
+
+Definition fol_cb (fr : list N) : Prop := exists b c r, fr = b ++ c :: r /\ blanks b /\ (c = 44%N \/ c = 93%N).
+Lemma fol_cb_efol fr : fol_cb fr -> efol fr.
+Proof. intros (b & c & r & -> & Hb & [-> | ->]); exists b; eexists; eexists; (split; [reflexivity|]); (split; [exact Hb|]); unfold ech; auto. Qed.
+Lemma fol_cb_sel fr : fol_cb fr -> fol_sel fr.
+Proof. intros (b & c & r & -> & Hb & Hc). apply fol_blank; [exact Hb | destruct Hc as [-> | ->]; reflexivity]. Qed.
+
+Definition F_QT (q : list seg) (t : list token) : Prop :=
+  forall a z a' fr p bs T, okS a -> am a = MSeg -> sc z -> plain t -> RunT a t z a' -> nn_head fr ->
+    exists t' p', reachS SSegment (LA a (z ++ fr) p bs T) SSegment (LA a fr p' bs (rev t' ++ T)) /\ QT q t' /\ (z = [] \/ seg_hd z).
+Definition F_SegT (g : seg) (t : list token) : Prop :=
+  forall a z a' fr p bs T, okS a -> am a = MSeg -> sc z -> plain t -> RunT a t z a' -> nn_head fr ->
+    exists t' p', reachS SSegment (LA a (z ++ fr) p bs T) SSegment (LA a fr p' bs (rev t' ++ T)) /\ SegT g t' /\ seg_hd z.
+Definition F_SelsT (ss : list sel) (t : list token) : Prop :=
+  forall a z a' fr p j bs T, okS a -> am a = MBrk -> sc z -> plain t -> RunT a t z a' -> fol_cb fr ->
+    exists t' p', reachS SBracket (LA a (z ++ fr) p ((91%N, j) :: bs) T) (st_of a') (LA a' fr p' ((91%N, j) :: bs) (rev t' ++ T)) /\ SelsT ss t'.
+Definition F_SelT (s : sel) (t : list token) : Prop :=
+  forall a z a' fr p j bs T, okS a -> am a = MBrk -> sc z -> plain t -> RunT a t z a' -> fol_cb fr ->
+    exists t' p', reachS SBracket (LA a (z ++ fr) p ((91%N, j) :: bs) T) (st_of a') (LA a' fr p' ((91%N, j) :: bs) (rev t' ++ T)) /\ SelT s t'.
+Definition F_ET (k : Z) (e : expr) (t : list token) : Prop :=
+  forall a z a' fr p bs T, okS a -> 1 <= afd a -> fl a -> sc z -> plain t -> RunT a t z a' -> efol fr ->
+    exists t' p', reachS (st_of a) (LA a (z ++ fr) p bs T) (st_of a') (LA a' fr p' bs (rev t' ++ T)) /\ ET k e t'.
+Definition F_CT (e : expr) (t : list token) : Prop :=
+  forall a z a' fr p bs T, okS a -> 1 <= afd a -> fl a -> sc z -> plain t -> RunT a t z a' -> efol fr ->
+    exists t' p', reachS (st_of a) (LA a (z ++ fr) p bs T) (st_of a') (LA a' fr p' bs (rev t' ++ T)) /\ CT e t'.
+Definition F_TT (w : ty3) (e : expr) (t : list token) : Prop :=
+  forall a z a' fr p bs T, okS a -> 1 <= afd a -> fl a -> sc z -> plain t -> RunT a t z a' -> efol fr ->
+    exists t' p', reachS (st_of a) (LA a (z ++ fr) p bs T) (st_of a') (LA a' fr p' bs (rev t' ++ T)) /\ TT w e t'.
+Definition F_ArgsT (tys : list ty3) (args : list expr) (t : list token) : Prop :=
+  forall a z a' fr p bs T, okS a -> 1 <= afd a -> fl a -> incall a -> sc z -> plain t -> RunT a t z a' -> efol fr ->
+    exists t' p', reachS (st_of a) (LA a (z ++ fr) p bs T) (st_of a') (LA a' fr p' bs (rev t' ++ T)) /\ ArgsT tys args t'.
+Definition F_ArgT (w : ty3) (e : expr) (t : list token) : Prop :=
+  forall a z a' fr p bs T, okS a -> 1 <= afd a -> fl a -> sc z -> plain t -> RunT a t z a' -> efol fr ->
+    exists t' p', reachS (st_of a) (LA a (z ++ fr) p bs T) (st_of a') (LA a' fr p' bs (rev t' ++ T)) /\ ArgT w e t'.
+
+Ltac retext Y := match goal with |- reachS _ (LA _ ?X _ _ _) _ _ => replace X with Y by (cbn [app pre post ty tval tk]; rewrite ?app_nil_r, <- ?app_assoc; cbn [app]; rewrite ?app_nil_r, <- ?app_assoc; reflexivity) end.
+Ltac ftok Hs Hf := apply (fl_step _ _ _ _ Hf) in Hs; [|discriminate|discriminate]; cbn [fil_step] in Hs; inversion Hs; subst; clear Hs.
+
+(* ---- literals ---- *)
+Lemma f_ct_lit v t : lit_tok v t -> F_CT (ELit v) [t].
+Proof.
+  intros Hl a z a' fr p bs T Ho Hd Hf Hsc Hpl H Hfr. runc H k0 a1 b z' Hs Hb Hn Ht HR. runnil HR.
+  destruct (efol_head fr Hfr) as (h & r & -> & Hh). destruct (bch_facts h Hh) as (Hnum & Hkw & _ & _).
+  inversion Hpl as [|? ? [Pi Pf] _]; subst.
+  assert (Hscv : sc (tval t)) by (apply (sc_mid (b ++ pre k0 (ty t)) (tval t) (post (ty t) ++ [])); rewrite <- !app_assoc; exact Hsc).
+  (* a token read by one step of the filter state, leaving the machine in the filter state with the same stacks *)
+  assert (Fin : forall T0 vv c v', ty t = T0 -> tval t = vv -> vv = c :: v' -> is_blank c = false -> c <> 46%N -> c <> 91%N -> pre GBl T0 = [] -> post T0 = [] ->
+            k0 = GBl -> a1 = amode_set a MFil ->
+            (forall p1, exists q, lex_step Lex.SFilter (GX (afd a) (affd a) (afcs a) (vv ++ h :: r) [] p1 p1 bs T) = LNext Lex.SFilter (GX (afd a) (affd a) (afcs a) (h :: r) [] q q bs (tk T0 vv p1 :: T))) ->
+            (forall i, lit_tok v (tk T0 vv i)) ->
+            exists t' p', reachS (st_of a) (LA a ((b ++ pre k0 (ty t) ++ tval t ++ post (ty t) ++ []) ++ h :: r) p bs T) (st_of a1) (LA a1 (h :: r) p' bs (rev t' ++ T)) /\ CT (ELit v) t').
+  { intros T0 vv c v' Ety Etv Evv Hc H46 H91 Hpre Hpost -> -> Hstep Hlit. rewrite Ety, Etv, Hpre, Hpost.
+    destruct (rd_fil a T0 vv c v' b (h :: r) p bs T Hf Hb Evv Hc H46 H91 Hstep) as (p' & i & R). exists [tk T0 vv i], p'. split; [|constructor; apply Hlit].
+    cbn [rev app]. retext (b ++ vv ++ h :: r). exact R. }
+  destruct Hl as [[E Ev] | [[E Ev] | [[E Ev] | [[Hty (s0 & Hdec & Ev)] | [(E & Hz & x & Hp & Ev) | (E & Hz & x & Hp & Ev)]]]]].
+  - rewrite E in Ht, Hs. cbn [tshape] in Ht. ftok Hs Hf. apply (Fin T_TRUE s_true 116%N [114; 117; 101]%N E Ht); try reflexivity; try discriminate.
+    + intros p1. apply (sf_true_g _ _ _ h r p1 bs T Hkw).
+    + intros i. left. split; reflexivity.
+  - rewrite E in Ht, Hs. cbn [tshape] in Ht. ftok Hs Hf. apply (Fin T_FALSE s_false 102%N [97; 108; 115; 101]%N E Ht); try reflexivity; try discriminate.
+    + intros p1. apply (sf_false_g _ _ _ h r p1 bs T Hkw).
+    + intros i. right. left. split; reflexivity.
+  - rewrite E in Ht, Hs. cbn [tshape] in Ht. ftok Hs Hf. apply (Fin T_NULL s_null 110%N [117; 108; 108]%N E Ht); try reflexivity; try discriminate.
+    + intros p1. apply (sf_null_g _ _ _ h r p1 bs T Hkw).
+    + intros i. right. right. left. split; reflexivity.
+  - destruct (decode_reidx t s0 Hty Ht Hscv Hdec) as (q & Hq & Ety & Hlok & Hdec').
+    assert (Hst : k0 = GBl /\ a1 = amode_set a MFil) by (destruct Hty as [E | E]; rewrite E in Hs; ftok Hs Hf; split; reflexivity). destruct Hst as [-> ->].
+    destruct (F_str a b q (tval t) (h :: r) p bs T Hf Hb Hq Hlok) as (p' & i & R). exists [tk (tt_of q) (tval t) i], p'. split.
+    + cbn [rev app]. rewrite Ety. destruct (qtt_pre q Hq) as [E1 E2]. fold (tt_of q) in E1, E2. rewrite E1, E2. retext (b ++ [q] ++ tval t ++ [q] ++ h :: r). exact R.
+    + constructor. right. right. right. left. split; [unfold tk, tt_of; cbn [ty]; destruct (N.eqb q 39); [left | right]; reflexivity|]. exists s0. split; [apply Hdec' | exact Ev].
+  - destruct (Pi E) as (sign & body & Etv & Hsg & Hbne & Hbd). rewrite E in Ht, Hs. cbn [tshape] in Ht. ftok Hs Hf.
+    assert (Hhd : exists c v', sign ++ body = c :: v' /\ is_blank c = false /\ c <> 46%N /\ c <> 91%N).
+    { destruct body as [|d body']; [congruence|]. cbn [forallb] in Hbd. apply andb_true_iff in Hbd as [Hd1 _]. unfold isd in Hd1.
+      destruct Hsg as [-> | ->]; cbn [app]; eexists; eexists; (split; [reflexivity|]); unfold is_blank; repeat split; try lia; discriminate. }
+    destruct Hhd as (c & v' & Ecv & C1 & C2 & C3).
+    apply (Fin T_INT (sign ++ body) c v' E Etv Ecv C1 C2 C3); try reflexivity.
+    + intros p1. apply (sf_int_g _ _ _ sign body h r p1 bs T Hsg Hbne Hbd Hnum).
+    + intros i. right. right. right. right. left. cbn [ty tval tk]. rewrite <- Etv. split; [reflexivity|]. split; [exact Hz|]. exists x. split; [exact Hp | reflexivity].
+  - destruct (Pf E) as (sign & ip & fp & Etv & Hsg & Hine & Hid & Hfne & Hfd). rewrite E in Ht, Hs. cbn [tshape] in Ht. ftok Hs Hf.
+    assert (Hhd : exists c v', sign ++ ip ++ 46%N :: fp = c :: v' /\ is_blank c = false /\ c <> 46%N /\ c <> 91%N).
+    { destruct ip as [|d ip']; [congruence|]. cbn [forallb] in Hid. apply andb_true_iff in Hid as [Hd1 _]. unfold isd in Hd1.
+      destruct Hsg as [-> | ->]; cbn [app]; eexists; eexists; (split; [reflexivity|]); unfold is_blank; repeat split; try lia; discriminate. }
+    destruct Hhd as (c & v' & Ecv & C1 & C2 & C3).
+    apply (Fin T_FLOAT (sign ++ ip ++ 46%N :: fp) c v' E Etv Ecv C1 C2 C3); try reflexivity.
+    + intros p1. apply (sf_float_g _ _ _ sign ip fp h r p1 bs T Hsg Hine Hid Hfne Hfd Hnum).
+    + intros i. right. right. right. right. right. cbn [ty tval tk]. rewrite <- Etv. split; [reflexivity|]. split; [exact Hz|]. exists x. split; [exact Hp | reflexivity].
+Qed.
+
+(* what Proofs/TextSound.v says about the abstract states along a derivation *)
+Lemma gs_qt q t : QT q t -> P_QT q t. Proof. apply (proj1 (grammar_spelled cfg)). Qed.
+Lemma gs_seg g t : SegT g t -> P_SegT g t. Proof. apply (proj1 (proj2 (grammar_spelled cfg))). Qed.
+Lemma gs_sels ss t : SelsT ss t -> P_SelsT ss t. Proof. apply (proj1 (proj2 (proj2 (grammar_spelled cfg)))). Qed.
+Lemma gs_sel s t : SelT s t -> P_SelT s t. Proof. apply (proj1 (proj2 (proj2 (proj2 (grammar_spelled cfg))))). Qed.
+Lemma gs_et k e t : ET k e t -> P_ET k e t. Proof. apply (proj1 (proj2 (proj2 (proj2 (proj2 (grammar_spelled cfg)))))). Qed.
+Lemma gs_ct e t : CT e t -> P_CT e t. Proof. apply (proj1 (proj2 (proj2 (proj2 (proj2 (proj2 (grammar_spelled cfg))))))). Qed.
+Lemma gs_tt w e t : TT w e t -> P_TT w e t. Proof. apply (proj1 (proj2 (proj2 (proj2 (proj2 (proj2 (proj2 (grammar_spelled cfg)))))))). Qed.
+Lemma gs_args tys args t : ArgsT tys args t -> P_ArgsT tys args t. Proof. apply (proj1 (proj2 (proj2 (proj2 (proj2 (proj2 (proj2 (proj2 (grammar_spelled cfg))))))))). Qed.
+Lemma gs_arg w e t : ArgT w e t -> P_ArgT w e t. Proof. apply (proj2 (proj2 (proj2 (proj2 (proj2 (proj2 (proj2 (proj2 (grammar_spelled cfg))))))))). Qed.
+
+(* ---- segments ---- *)
+Lemma f_sg_prop k i : F_SegT (Child [SName k]) [tk T_PROPERTY k i].
+Proof.
+  intros a z a' fr p bs T Ho Hm Hsc Hpl H Hf. runc H k0 a1 b z' Hs Hb Hn Ht HR. runnil HR. stepM Hs Hm.
+  destruct (R_prop_g (afd a) (affd a) (afcs a) b k fr p T bs Hb (lang_name k (pmatch_lang _ _ Ht)) Hf) as (p' & i' & R). exists [tk T_PROPERTY k i'], p'. split; [|split].
+  - cbn [rev app]. retext (b ++ [46%N] ++ k ++ fr). exact R.
+  - constructor.
+  - cbn [ty tval tk]. apply seg_hd_blank; [exact Hb|]. exists 46%N, (k ++ post T_PROPERTY ++ []). split; [reflexivity | right; left; reflexivity].
+Qed.
+Lemma f_sg_wild v i : F_SegT (Child [SWild]) [tk T_WILD v i].
+Proof.
+  intros a z a' fr p bs T Ho Hm Hsc Hpl H Hf. runc H k0 a1 b z' Hs Hb Hn Ht HR. runnil HR. stepM Hs Hm.
+  destruct (R_wild_sh_g (afd a) (affd a) (afcs a) b fr p T bs Hb) as (p' & i' & R). exists [tk T_WILD [42%N] i'], p'. split; [|split].
+  - cbn [rev app]. retext (b ++ [46%N] ++ [42%N] ++ fr). exact R.
+  - constructor.
+  - cbn [ty tval tk]. apply seg_hd_blank; [exact Hb|]. exists 46%N, ([42%N] ++ post T_WILD ++ []). split; [reflexivity | right; left; reflexivity].
+Qed.
+
+(* "]" and "," after a selector: the selector was plain (state a) or a filter (a filter-like state with one more level of the filter stacks) *)
+Lemma rd_rb a a1 b2 fr p j bs T : am a = MBrk -> after_sel a a1 -> blanks b2 ->
+  exists p' i, reachS (st_of a1) (LA a1 (b2 ++ [93%N] ++ fr) p ((91%N, j) :: bs) T) SSegment (LA (amode_set a MSeg) fr p' bs (tk T_RBRACKET [93%N] i :: T)).
+Proof.
+  intros Hm [-> | (Hf & E1 & E2 & E3)] Hb.
+  - unfold st_of. rewrite Hm. exact (B_rb_g (afd a) (affd a) (afcs a) b2 fr p j T bs Hb).
+  - cbn [app]. destruct (to_fil a1 b2 93 fr p ((91%N, j) :: bs) T Hf Hb eq_refl ltac:(discriminate) ltac:(discriminate)) as (p1 & R1).
+    eexists; eexists. eapply reachS_trans; [exact R1|]. unfold LA, G. rewrite E2. eapply reachS_trans; [apply reachS_step; apply sf_close|].
+    apply reachS_step. rewrite (GX_pos2 _ _ _ (93%N :: fr) [] p1 (p1 + 1 - 1) p1) by lia.
+    rewrite (Requery.step_bracket_close (afd a1 - 1) (affd a) (afcs a1) bs fr p1 j T). cbn [amode_set afd affd afcs]. replace (afd a1 - 1) with (afd a) by lia. rewrite E3. reflexivity.
+Qed.
+Lemma rd_comma a a1 bc fr p j bs T : am a = MBrk -> after_sel a a1 -> blanks bc ->
+  exists p' i, reachS (st_of a1) (LA a1 (bc ++ [44%N] ++ fr) p ((91%N, j) :: bs) T) SBracket (LA a fr p' ((91%N, j) :: bs) (tk T_COMMA [44%N] i :: T)).
+Proof.
+  intros Hm [-> | (Hf & E1 & E2 & E3)] Hb.
+  - unfold st_of. rewrite Hm. exact (B_char_g (afd a) (affd a) (afcs a) bc 44 T_COMMA fr p _ T Hb (or_intror (or_introl (conj eq_refl eq_refl)))).
+  - cbn [app]. destruct (to_fil a1 bc 44 fr p ((91%N, j) :: bs) T Hf Hb eq_refl ltac:(discriminate) ltac:(discriminate)) as (p1 & R1).
+    eexists; eexists. eapply reachS_trans; [exact R1|]. unfold LA, G. rewrite E2. apply reachS_step.
+    rewrite sf_comma_out by (rewrite E3; lia). replace (afd a1 - 1) with (afd a) by lia. rewrite E3. reflexivity.
+Qed.
+
+Lemma fol_cb_rb b r : blanks b -> fol_cb (b ++ [93%N] ++ r).
+Proof. intros Hb. exists b, 93%N, r. split; [reflexivity|]. split; [exact Hb | right; reflexivity]. Qed.
+
+Lemma f_close ss t v i : SelsT ss t -> F_SelsT ss t -> forall a z a' fr p j bs T, okS a -> am a = MBrk -> sc z -> plain (t ++ [tk T_RBRACKET v i]) -> RunT a (t ++ [tk T_RBRACKET v i]) z a' ->
+  exists t' p' i', reachS SBracket (LA a (z ++ fr) p ((91%N, j) :: bs) T) SSegment (LA (amode_set a MSeg) fr p' bs (tk T_RBRACKET [93%N] i' :: rev t' ++ T)) /\ SelsT ss t' /\ a' = amode_set a MSeg.
+Proof.
+  intros HS0 IH a z a' fr p j bs T Ho Hm Hsc Hpl H. apply RunT_app in H as (z1 & z2 & a1 & -> & H1 & H2). apply sc_app in Hsc as [Hsc1 Hsc2]. apply plain_app in Hpl as [Hpl1 _].
+  destruct (gs_sels ss t HS0 a z1 a1 Ho Hm Hsc1 H1) as (Has & _).
+  runc H2 k0 a2 b2 z' Hs Hb2 Hn Ht HR. runnil HR. destruct (after_sel_steps a a1 Hm Has) as [_ E].
+  assert (k0 = GBl /\ a2 = amode_set a MSeg) as [-> ->] by (rewrite E in Hs; inversion Hs; split; reflexivity). subst v.
+  destruct (IH a z1 a1 ((b2 ++ [93%N] ++ fr)) p j bs T Ho Hm Hsc1 Hpl1 H1 (fol_cb_rb b2 fr Hb2)) as (t' & p1 & R1 & HS).
+  destruct (rd_rb a a1 b2 fr p1 j bs (rev t' ++ T) Hm Has Hb2) as (p2 & i2 & R2). exists t', p2, i2. split; [|split; [exact HS | reflexivity]].
+  eapply reachS_trans; [|exact R2]. retext (z1 ++ b2 ++ [93%N] ++ fr). exact R1.
+Qed.
+
+Lemma f_sg_br ss t v1 i1 v2 i2 : SelsT ss t -> F_SelsT ss t -> F_SegT (Child ss) (tk T_LBRACKET v1 i1 :: t ++ [tk T_RBRACKET v2 i2]).
+Proof.
+  intros HS0 IH a z a' fr p bs T Ho Hm Hsc Hpl H Hf. runc H k0 a1 b z' Hs Hb Hn Ht HR. stepM Hs Hm. do 4 (apply sc_app in Hsc as [_ Hsc]). inversion Hpl as [|? ? _ Hpl']; subst.
+  destruct (R_lb_g (afd a) (affd a) (afcs a) b (z' ++ fr) p T bs Hb) as (p1 & i1' & j & R1).
+  destruct (f_close ss t v2 i2 HS0 IH (amode_set a MBrk) z' a' fr p1 j bs (tk T_LBRACKET [91%N] i1' :: T) (okS_same _ _ (same_stk_mode a MBrk) Ho) eq_refl Hsc Hpl' HR) as (t' & p2 & i2' & R2 & HS & ->).
+  exists (tk T_LBRACKET [91%N] i1' :: t' ++ [tk T_RBRACKET [93%N] i2']), p2. split; [|split].
+  - rewrite rev3. eapply reachS_trans; [|exact R2]. retext (b ++ [91%N] ++ z' ++ fr). exact R1.
+  - constructor. exact HS.
+  - cbn [ty tval tk pre post]. apply seg_hd_blank; [exact Hb|]. exists 91%N, ([] ++ z'). split; [reflexivity | right; right; reflexivity].
+Qed.
+Lemma f_sg_dprop k i v0 i0 : F_SegT (Desc [SName k]) [tk T_DOUBLE_DOT v0 i0; tk T_PROPERTY k i].
+Proof.
+  intros a z a' fr p bs T Ho Hm Hsc Hpl H Hf. runc H k0 a1 b z' Hs Hb Hn Ht HR. destruct (step_dd a k0 a1 Hm Hs) as [-> ->]. try subst v0.
+  runc HR k1 a2 b1 z'' Hs1 Hb1 Hn1 Ht1 HR1. runnil HR1. unfold astep in Hs1. cbn in Hs1. inversion Hs1; subst. rewrite (Hn1 eq_refl).
+  destruct (R_dd_g (afd a) (affd a) (afcs a) b (k ++ fr) p T bs Hb) as (p1 & i1 & R1).
+  destruct (D_prop_g (afd a) (affd a) (afcs a) k fr p1 (tk T_DOUBLE_DOT [46; 46]%N i1 :: T) bs (lang_name k (pmatch_lang _ _ Ht1)) Hf) as (p2 & i2 & R2).
+  exists [tk T_DOUBLE_DOT [46; 46]%N i1; tk T_PROPERTY k i2], p2. split; [|split].
+  - cbn [rev app]. eapply reachS_trans; [|exact R2]. retext (b ++ [46; 46]%N ++ k ++ fr). exact R1.
+  - constructor.
+  - cbn [ty tval tk pre post]. apply seg_hd_blank; [exact Hb|]. eexists; eexists. split; [reflexivity | right; left; reflexivity].
+Qed.
+Lemma f_sg_dwild v i v0 i0 : F_SegT (Desc [SWild]) [tk T_DOUBLE_DOT v0 i0; tk T_WILD v i].
+Proof.
+  intros a z a' fr p bs T Ho Hm Hsc Hpl H Hf. runc H k0 a1 b z' Hs Hb Hn Ht HR. destruct (step_dd a k0 a1 Hm Hs) as [-> ->]. try subst v0.
+  runc HR k1 a2 b1 z'' Hs1 Hb1 Hn1 Ht1 HR1. runnil HR1. unfold astep in Hs1. cbn in Hs1. inversion Hs1; subst. rewrite (Hn1 eq_refl). try subst v.
+  destruct (R_dd_g (afd a) (affd a) (afcs a) b ([42%N] ++ fr) p T bs Hb) as (p1 & i1 & R1).
+  destruct (D_wild_g (afd a) (affd a) (afcs a) fr p1 (tk T_DOUBLE_DOT [46; 46]%N i1 :: T) bs) as (p2 & i2 & R2).
+  exists [tk T_DOUBLE_DOT [46; 46]%N i1; tk T_WILD [42%N] i2], p2. split; [|split].
+  - cbn [rev app]. eapply reachS_trans; [|exact R2]. retext (b ++ [46; 46]%N ++ [42%N] ++ fr). exact R1.
+  - constructor.
+  - cbn [ty tval tk pre post]. apply seg_hd_blank; [exact Hb|]. eexists; eexists. split; [reflexivity | right; left; reflexivity].
+Qed.
+Lemma f_sg_dbr ss t v0 i0 v1 i1 v2 i2 : SelsT ss t -> F_SelsT ss t -> F_SegT (Desc ss) (tk T_DOUBLE_DOT v0 i0 :: tk T_LBRACKET v1 i1 :: t ++ [tk T_RBRACKET v2 i2]).
+Proof.
+  intros HS0 IH a z a' fr p bs T Ho Hm Hsc Hpl H Hf. runc H k0 a1 b z' Hs Hb Hn Ht HR. destruct (step_dd a k0 a1 Hm Hs) as [-> ->]. try subst v0.
+  runc HR k1 a2 b1 z'' Hs1 Hb1 Hn1 Ht1 HR1. unfold astep in Hs1. cbn in Hs1. inversion Hs1; subst. rewrite (Hn1 eq_refl). try subst v1. do 8 (apply sc_app in Hsc as [_ Hsc]).
+  inversion Hpl as [|? ? _ Hpl1]; subst. inversion Hpl1 as [|? ? _ Hpl2]; subst.
+  destruct (R_dd_g (afd a) (affd a) (afcs a) b ([91%N] ++ z'' ++ fr) p T bs Hb) as (p1 & i1' & R1).
+  destruct (D_lb_g (afd a) (affd a) (afcs a) (z'' ++ fr) p1 (tk T_DOUBLE_DOT [46; 46]%N i1' :: T) bs) as (p2 & i2' & j & R2).
+  destruct (f_close ss t v2 i2 HS0 IH (amode_set (amode_set a MDesc) MBrk) z'' a' fr p2 j bs (tk T_LBRACKET [91%N] i2' :: tk T_DOUBLE_DOT [46; 46]%N i1' :: T) (okS_same _ _ (same_stk_mode a MBrk) Ho) eq_refl Hsc Hpl2 HR1)
+    as (t' & p3 & i3' & R3 & HS & ->).
+  exists (tk T_DOUBLE_DOT [46; 46]%N i1' :: tk T_LBRACKET [91%N] i2' :: t' ++ [tk T_RBRACKET [93%N] i3']), p3. split; [|split].
+  - assert (Etoks : rev (tk T_DOUBLE_DOT [46; 46]%N i1' :: tk T_LBRACKET [91%N] i2' :: t' ++ [tk T_RBRACKET [93%N] i3']) ++ T
+                    = tk T_RBRACKET [93%N] i3' :: rev t' ++ tk T_LBRACKET [91%N] i2' :: tk T_DOUBLE_DOT [46; 46]%N i1' :: T).
+    { cbn [rev]. rewrite rev_app_distr. cbn [rev app]. rewrite <- !app_assoc. reflexivity. }
+    rewrite Etoks. eapply reachS_trans; [|exact R3]. eapply reachS_trans; [|exact R2]. retext (b ++ [46; 46]%N ++ [91%N] ++ z'' ++ fr). exact R1.
+  - constructor. exact HS.
+  - cbn [ty tval tk pre post]. apply seg_hd_blank; [exact Hb|]. eexists; eexists. split; [reflexivity | right; left; reflexivity].
+Qed.
+
+Lemma f_qt_nil : F_QT [] [].
+Proof. intros a z a' fr p bs T Ho Hm Hsc Hpl H Hf. runnil H. exists [], p. split; [apply reachS_refl|]. split; [constructor | left; reflexivity]. Qed.
+Lemma f_qt_cons g tg q tq : SegT g tg -> F_SegT g tg -> F_QT q tq -> F_QT (g :: q) (tg ++ tq).
+Proof.
+  intros HG Hg Hq a z a' fr p bs T Ho Hm Hsc Hpl H Hf.
+  apply RunT_app in H as (z1 & z2 & a1 & -> & H1 & H2). apply sc_app in Hsc as [Hsc1 Hsc2]. apply plain_app in Hpl as [Hpl1 Hpl2].
+  destruct (gs_seg g tg HG a z1 a1 Ho Hm Hsc1 H1) as (-> & _).
+  assert (Hf1 : nn_head (z2 ++ fr)).
+  { destruct (Hq a z2 a' fr p bs T Ho Hm Hsc2 Hpl2 H2 Hf) as (_ & _ & _ & _ & [-> | Hh]); [exact Hf | apply seg_hd_nn; exact Hh]. }
+  destruct (Hg a z1 a (z2 ++ fr) p bs T Ho Hm Hsc1 Hpl1 H1 Hf1) as (t1 & p1 & R1 & HS1 & Hh1).
+  destruct (Hq a z2 a' fr p1 bs (rev t1 ++ T) Ho Hm Hsc2 Hpl2 H2 Hf) as (t2 & p2 & R2 & HQ2 & _).
+  exists (t1 ++ t2), p2. split; [|split].
+  - rewrite rev_app_distr, <- !app_assoc. eapply reachS_trans; [exact R1 | exact R2].
+  - constructor; assumption.
+  - right. destruct Hh1 as (c & r & -> & Hc). exists c, (r ++ z2). split; [reflexivity | exact Hc].
+Qed.
+
+(* ---- selectors ---- *)
+Lemma st_of_brk a : am a = MBrk -> st_of a = SBracket. Proof. intros H. unfold st_of. rewrite H. reflexivity. Qed.
+
+Lemma f_name t k : (ty t = T_SQ_STRING \/ ty t = T_DQ_STRING) -> decode_string_literal t = Ok k -> F_SelT (SName k) [t].
+Proof.
+  intros Hty Hd a z a' fr p j bs T Ho Hm Hsc Hpl H Hf. runc H k0 a1 b z' Hs Hb Hn Ht HR. runnil HR.
+  assert (Hs' : k0 = GBl /\ a1 = a) by (unfold astep in Hs; rewrite Hm in Hs; destruct Hty as [E | E]; rewrite E in Hs; inversion Hs; split; reflexivity).
+  destruct Hs' as [-> ->]. rewrite (st_of_brk a Hm).
+  assert (Hscv : sc (tval t)) by (apply (sc_mid (b ++ pre GBl (ty t)) (tval t) (post (ty t) ++ [])); rewrite <- !app_assoc; exact Hsc).
+  destruct (decode_reidx t k Hty Ht Hscv Hd) as (q & Hq & Ety & Hlok & Hdec).
+  destruct (B_str_g (afd a) (affd a) (afcs a) b q (tval t) fr p ((91%N, j) :: bs) T Hb Hq Hlok) as (p' & i' & R). exists [tk (tt_of q) (tval t) i'], p'. split.
+  - cbn [rev app]. rewrite Ety. destruct (qtt_pre q Hq) as [E1 E2]. fold (tt_of q) in E1, E2. rewrite E1, E2. retext (b ++ [q] ++ tval t ++ [q] ++ fr). exact R.
+  - apply st_name; [unfold tk, tt_of; cbn [ty]; destruct (N.eqb q 39); [left | right]; reflexivity | apply Hdec].
+Qed.
+Lemma f_index ds j0 i : int_text_ok ds i -> in_range cfg i = true -> F_SelT (SIndex i) [tk T_INDEX ds j0].
+Proof.
+  intros Hi Hr a z a' fr p j bs T Ho Hm Hsc Hpl H Hf. destruct (fol_cb_sel fr Hf) as (c & r & -> & Hc). runc H k0 a1 b z' Hs Hb Hn Ht HR. runnil HR.
+  assert (k0 = GBl /\ a1 = a) as [-> ->] by (unfold astep in Hs; rewrite Hm in Hs; cbn in Hs; inversion Hs; split; reflexivity). rewrite (st_of_brk a Hm).
+  destruct (B_int_g (afd a) (affd a) (afcs a) b ds i c r p ((91%N, j) :: bs) T Hb Hi Hc) as (p' & i' & R). exists [tk T_INDEX ds i'], p'. split.
+  - cbn [rev app]. retext (b ++ ds ++ c :: r). exact R.
+  - constructor; assumption.
+Qed.
+Lemma f_wild v i : F_SelT SWild [tk T_WILD v i].
+Proof.
+  intros a z a' fr p j bs T Ho Hm Hsc Hpl H Hf. runc H k0 a1 b z' Hs Hb Hn Ht HR. runnil HR.
+  assert (k0 = GBl /\ a1 = a) as [-> ->] by (unfold astep in Hs; rewrite Hm in Hs; cbn in Hs; inversion Hs; split; reflexivity). rewrite (st_of_brk a Hm). subst v.
+  destruct (B_char_g (afd a) (affd a) (afcs a) b 42 T_WILD fr p ((91%N, j) :: bs) T Hb (or_introl (conj eq_refl eq_refl))) as (p' & i' & R). exists [tk T_WILD [42%N] i'], p'. split.
+  - cbn [rev app]. retext (b ++ [42%N] ++ fr). exact R.
+  - constructor.
+Qed.
+
+Lemma f_filter e t v i : F_ET 3 e t -> F_SelT (SFilter e) (tk T_FILTER v i :: t).
+Proof.
+  intros IH a z a' fr p j bs T Ho Hm Hsc Hpl H Hf. runc H k0 a1 b z' Hs Hb Hn Ht HR. stepM Hs Hm. do 4 (apply sc_app in Hsc as [_ Hsc]). inversion Hpl as [|? ? _ Hpl']; subst.
+  destruct Ho as (O1 & O2 & O3).
+  assert (Ho1 : okS (mkA MFil (afd a + 1) (zlen (afcs a) :: affd a) (afcs a))).
+  { split; [exact O1|]. cbn [affd afcs afd]. split; [intros d r E; inversion E; lia | lia]. }
+  destruct (IH _ z' a' fr (p + zlen b + 1) ((91%N, j) :: bs) (tk T_FILTER [63%N] (p + zlen b) :: T) Ho1 ltac:(cbn [afd]; lia) (or_introl eq_refl) Hsc Hpl' HR (fol_cb_efol fr Hf)) as (t' & p' & R & HE).
+  exists (tk T_FILTER [63%N] (p + zlen b) :: t'), p'. split; [|constructor; exact HE].
+  replace (rev (tk T_FILTER [63%N] (p + zlen b) :: t') ++ T) with (rev t' ++ tk T_FILTER [63%N] (p + zlen b) :: T) by (cbn [rev]; rewrite <- app_assoc; reflexivity).
+  eapply reachS_trans; [|exact R]. retext (b ++ [63%N] ++ z' ++ fr).
+  eapply reachS_trans; [apply (reach_ws_g (afd a) (affd a) (afcs a) SBracket b ([63%N] ++ z' ++ fr) p _ T (or_intror eq_refl) Hb (nbh_cons 63 _ eq_refl))|].
+  apply reachS_step. cbn [app]. unfold LA, G, st_of. cbn [am afd affd afcs]. apply sb_filter.
+Qed.
+
+Lemma f_ss_one s t : F_SelT s t -> F_SelsT [s] t.
+Proof.
+  intros IH a z a' fr p j bs T Ho Hm Hsc Hpl H Hf. destruct (IH a z a' fr p j bs T Ho Hm Hsc Hpl H Hf) as (t' & p' & R & HS). exists t', p'. split; [exact R | constructor; exact HS].
+Qed.
+Lemma f_ss_cons s t v i rest trest : SelT s t -> F_SelT s t -> F_SelsT rest trest -> F_SelsT (s :: rest) (t ++ tk T_COMMA v i :: trest).
+Proof.
+  intros HS0 IHs IHr a z a' fr p j bs T Ho Hm Hsc Hpl H Hf.
+  apply RunT_app in H as (z1 & z2 & a1 & -> & H1 & H2). apply sc_app in Hsc as [Hsc1 Hsc2]. apply plain_app in Hpl as [Hpl1 Hpl2]. inversion Hpl2 as [|? ? _ Hpl3]; subst.
+  destruct (gs_sel s t HS0 a z1 a1 Ho Hm Hsc1 H1) as (Has & _).
+  runc H2 k0 a2 bc z' Hs Hbc Hn Ht HR. destruct (after_sel_steps a a1 Hm Has) as [E _].
+  assert (k0 = GBl /\ a2 = a) as [-> ->] by (rewrite E in Hs; inversion Hs; split; reflexivity). subst v.
+  destruct (IHs a z1 a1 (bc ++ [44%N] ++ z' ++ fr) p j bs T Ho Hm Hsc1 Hpl1 H1) as (t1 & p1 & R1 & HS1).
+  { exists bc, 44%N, (z' ++ fr). split; [reflexivity|]. split; [exact Hbc | left; reflexivity]. }
+  destruct (rd_comma a a1 bc (z' ++ fr) p1 j bs (rev t1 ++ T) Hm Has Hbc) as (p2 & i2 & R2).
+  do 4 (apply sc_app in Hsc2 as [_ Hsc2]).
+  destruct (IHr a z' a' fr p2 j bs (tk T_COMMA [44%N] i2 :: rev t1 ++ T) Ho Hm Hsc2 Hpl3 HR Hf) as (t2 & p3 & R3 & HS2).
+  exists (t1 ++ tk T_COMMA [44%N] i2 :: t2), p3. split; [|constructor; assumption].
+  rewrite rev_snoc_app. eapply reachS_trans; [|exact R3]. eapply reachS_trans; [|exact R2]. retext (z1 ++ bc ++ [44%N] ++ z' ++ fr). exact R1.
+Qed.
+
+(* --- slices --- *)
+Lemma f_optI o t a z a' fr p bs T : OptI cfg o t -> am a = MBrk -> RunT a t z a' -> fol_sel fr ->
+  exists t' p', reachS SBracket (LA a (z ++ fr) p bs T) SBracket (LA a fr p' bs (rev t' ++ T)) /\ OptI cfg o t' /\ a' = a.
+Proof.
+  intros Ho Hm H (c & r & -> & Hc). destruct o as [x|]; cbn [OptI] in Ho.
+  - destruct Ho as (ds & j & -> & Hi & Hr). runc H k0 a1 b z' Hs Hb Hn Ht HR. runnil HR.
+    assert (k0 = GBl /\ a1 = a) as [-> ->] by (unfold astep in Hs; rewrite Hm in Hs; cbn in Hs; inversion Hs; split; reflexivity).
+    destruct (B_int_g (afd a) (affd a) (afcs a) b ds x c r p bs T Hb Hi Hc) as (p' & i' & R). exists [tk T_INDEX ds i'], p'. split; [|split; [|reflexivity]].
+    + cbn [rev app]. retext (b ++ ds ++ c :: r). exact R.
+    + exists ds, i'. split; [reflexivity|]. split; assumption.
+  - subst t. runnil H. exists [], p. split; [apply reachS_refl|]. split; reflexivity.
+Qed.
+Lemma f_stepT c t a z a' fr p bs T : StepT cfg c t -> am a = MBrk -> RunT a t z a' -> fol_sel fr ->
+  exists t' p', reachS SBracket (LA a (z ++ fr) p bs T) SBracket (LA a fr p' bs (rev t' ++ T)) /\ StepT cfg c t' /\ a' = a /\ colon_hd z.
+Proof.
+  intros [[-> ->] | (v & i & t0 & -> & Ho)] Hm H Hf.
+  - runnil H. exists [], p. split; [apply reachS_refl|]. split; [left; split; reflexivity|]. split; [reflexivity | left; reflexivity].
+  - destruct (run_colon a v i t0 z a' Hm H) as (b & z' & -> & Hb & HR).
+    destruct (B_char_g (afd a) (affd a) (afcs a) b 58 T_COLON (z' ++ fr) p bs T Hb (or_intror (or_intror (conj eq_refl eq_refl)))) as (p1 & i1 & R1).
+    destruct (f_optI c t0 a z' a' fr p1 bs (tk T_COLON [58%N] i1 :: T) Ho Hm HR Hf) as (t1 & p2 & R2 & Ho' & ->).
+    exists (tk T_COLON [58%N] i1 :: t1), p2. split; [|split; [|split]].
+    + replace (rev (tk T_COLON [58%N] i1 :: t1) ++ T) with (rev t1 ++ tk T_COLON [58%N] i1 :: T) by (cbn [rev]; rewrite <- app_assoc; reflexivity).
+      eapply reachS_trans; [|exact R2]. retext (b ++ [58%N] ++ z' ++ fr). exact R1.
+    + right. exists [58%N], i1, t1. split; [reflexivity | exact Ho'].
+    + reflexivity.
+    + right. exists b, z'. split; [reflexivity | exact Hb].
+Qed.
+Lemma f_slice x y c ta tb tc v1 i1 : OptI cfg x ta -> OptI cfg y tb -> StepT cfg c tc -> F_SelT (SSlice x y c) (ta ++ tk T_COLON v1 i1 :: tb ++ tc).
+Proof.
+  intros Hx Hy Hc a z a' fr p j bs T Ho Hm Hsc Hpl H Hf0. pose proof (fol_cb_sel fr Hf0) as Hf. apply RunT_app in H as (za & z2 & a1 & -> & H1 & H2).
+  destruct (run_optI cfg x ta a za a1 Hx Hm H1) as [-> _].
+  destruct (run_colon a v1 i1 (tb ++ tc) z2 a' Hm H2) as (b2 & z3 & -> & Hb2 & H3). apply RunT_app in H3 as (zb & zc & a2 & -> & H4 & H5).
+  destruct (run_optI cfg y tb a zb a2 Hy Hm H4) as [-> _].
+  assert (Hch : colon_hd zc) by (destruct (f_stepT c tc a zc a' fr 0 [] [] Hc Hm H5 Hf) as (_ & _ & _ & _ & _ & Hh); exact Hh).
+  destruct (f_optI x ta a za a ((b2 ++ [58%N] ++ zb ++ zc) ++ fr) p ((91%N, j) :: bs) T Hx Hm H1) as (t1 & p1 & R1 & Hx' & _).
+  { rewrite <- app_assoc. apply fol_blank; [exact Hb2 | reflexivity]. }
+  destruct (B_char_g (afd a) (affd a) (afcs a) b2 58 T_COLON ((zb ++ zc) ++ fr) p1 ((91%N, j) :: bs) (rev t1 ++ T) Hb2 (or_intror (or_intror (conj eq_refl eq_refl)))) as (p2 & i2 & R2).
+  destruct (f_optI y tb a zb a (zc ++ fr) p2 ((91%N, j) :: bs) (tk T_COLON [58%N] i2 :: rev t1 ++ T) Hy Hm H4 (fol_colon_hd zc fr Hch Hf)) as (t2 & p3 & R3 & Hy' & _).
+  destruct (f_stepT c tc a zc a' fr p3 ((91%N, j) :: bs) (rev t2 ++ tk T_COLON [58%N] i2 :: rev t1 ++ T) Hc Hm H5 Hf) as (t3 & p4 & R4 & Hc' & -> & _).
+  rewrite (st_of_brk a Hm). exists (t1 ++ tk T_COLON [58%N] i2 :: t2 ++ t3), p4. split; [|constructor; assumption].
+  assert (Etoks : rev (t1 ++ tk T_COLON [58%N] i2 :: t2 ++ t3) ++ T = rev t3 ++ rev t2 ++ tk T_COLON [58%N] i2 :: rev t1 ++ T).
+  { rewrite rev_snoc_app, rev_app_distr, <- !app_assoc. reflexivity. }
+  rewrite Etoks. eapply reachS_trans; [rewrite <- app_assoc; exact R1|]. eapply reachS_trans; [|exact R4]. eapply reachS_trans; [|exact R3].
+  unfold LA in *. rewrite <- !app_assoc. rewrite <- !app_assoc in R2. match goal with |- reachS _ (G _ _ _ ?X _ _ _) _ _ => replace X with (b2 ++ [58%N] ++ zb ++ zc ++ fr) by (cbn [app]; rewrite <- ?app_assoc; reflexivity) end. exact R2.
+Qed.
+
+(* ---- expressions ---- *)
+Lemma LA_fil a rest p bs T : LA (amode_set a MFil) rest p bs T = LA a rest p bs T. Proof. reflexivity. Qed.
+Lemma st_fil a : st_of (amode_set a MFil) = Lex.SFilter. Proof. reflexivity. Qed.
+Lemma efol_app b c r : blanks b -> ech c -> efol (b ++ c :: r).
+Proof. intros Hb Hc. exists b, c, r. split; [reflexivity | split; assumption]. Qed.
+
+(* the first character of what a comparable, a test or "(" is spelled with is not "=" *)
+Definition ne61 (z : list N) : Prop := exists c r, z = c :: r /\ c <> 61%N.
+Lemma ne61_blank b x : blanks b -> ne61 x -> ne61 (b ++ x).
+Proof.
+  intros Hb Hx. destruct b as [|c b']; [exact Hx|]. unfold blanks in Hb. cbn [forallb] in Hb. apply andb_true_iff in Hb as [Hc _].
+  exists c, (b' ++ x). split; [reflexivity|]. unfold is_blank in Hc. lia.
+Qed.
+Lemma tt_head w e t a z a' : TT w e t -> fl a -> RunT a t z a' -> ne61 z.
+Proof.
+  intros HT Hf H. inversion HT; subst.
+  - runc H k0 a1 b z' Hs Hb Hn Ht HR. ftok Hs Hf. apply ne61_blank; [exact Hb|]. exists 64%N, (post T_CURRENT ++ z'). split; [reflexivity | discriminate].
+  - runc H k0 a1 b z' Hs Hb Hn Ht HR. ftok Hs Hf. apply ne61_blank; [exact Hb|]. exists 36%N, (post T_ROOT ++ z'). split; [reflexivity | discriminate].
+  - runc H k0 a1 b z' Hs Hb Hn Ht HR. ftok Hs Hf. apply ne61_blank; [exact Hb|]. cbn [pre app].
+    apply pmatch_lang in Ht. unfold RE_FUNCTION_NAME in Ht. apply lang_seq_inv in Ht as (s1 & s2 & -> & Hl1 & _). apply lang_cls_inv in Hl1 as (c & -> & Hc).
+    exists c, (s2 ++ post T_FUNCTION ++ z'). split; [reflexivity|]. cbn [xorb in_ranges] in Hc. intros ->. discriminate Hc.
+Qed.
+Lemma ct_head e t a z a' : CT e t -> plain t -> fl a -> RunT a t z a' -> ne61 z.
+Proof.
+  intros HC Hpl Hf H. inversion HC; subst; [|eapply tt_head; eassumption].
+  runc H k0 a1 b z' Hs Hb Hn Ht HR. inversion Hpl as [|? ? [Pi Pf] _]; subst. apply ne61_blank; [exact Hb|].
+  match goal with Hl : lit_tok _ _ |- _ => destruct Hl as [[E _] | [[E _] | [[E _] | [[Hty _] | [(E & _) | (E & _)]]]]] end.
+  - rewrite E in *. cbn [tshape] in Ht. rewrite Ht. ftok Hs Hf. eexists; eexists. split; [reflexivity | discriminate].
+  - rewrite E in *. cbn [tshape] in Ht. rewrite Ht. ftok Hs Hf. eexists; eexists. split; [reflexivity | discriminate].
+  - rewrite E in *. cbn [tshape] in Ht. rewrite Ht. ftok Hs Hf. eexists; eexists. split; [reflexivity | discriminate].
+  - destruct Hty as [E | E]; rewrite E in *; ftok Hs Hf; eexists; eexists; (split; [reflexivity | discriminate]).
+  - destruct (Pi E) as (sign & body & Etv & Hsg & Hbne & Hbd). rewrite E in Hs. ftok Hs Hf. rewrite E, Etv. cbn [pre app].
+    destruct body as [|d body']; [congruence|]. cbn [forallb] in Hbd. apply andb_true_iff in Hbd as [Hd1 _]. unfold isd in Hd1.
+    destruct Hsg as [-> | ->]; cbn [app]; eexists; eexists; (split; [reflexivity|]); [lia | discriminate].
+  - destruct (Pf E) as (sign & ip & fp & Etv & Hsg & Hine & Hid & _). rewrite E in Hs. ftok Hs Hf. rewrite E, Etv. cbn [pre app].
+    destruct ip as [|d ip']; [congruence|]. cbn [forallb] in Hid. apply andb_true_iff in Hid as [Hd1 _]. unfold isd in Hd1.
+    destruct Hsg as [-> | ->]; cbn [app]; eexists; eexists; (split; [reflexivity|]); [lia | discriminate].
+Qed.
+
+(* reading one operator-like token in a filter-like state *)
+Lemma rd_op a T v c v' b fr p bs T0 : fl a -> blanks b -> v = c :: v' -> ech c \/ c = 40%N ->
+  (forall p1, exists q, lex_step Lex.SFilter (GX (afd a) (affd a) (afcs a) (v ++ fr) [] p1 p1 bs T0) = LNext Lex.SFilter (GX (afd a) (affd a) (afcs a) fr [] q q bs (tk T v p1 :: T0))) ->
+  exists p' i, reachS (st_of a) (LA a (b ++ v ++ fr) p bs T0) Lex.SFilter (LA a fr p' bs (tk T v i :: T0)).
+Proof.
+  intros Hf Hb Ev Hc Hstep. assert (C : is_blank c = false /\ c <> 46%N /\ c <> 91%N) by (destruct Hc as [Hc | ->]; [exact (ech_facts c Hc) | repeat split; try reflexivity; discriminate]).
+  destruct C as (C1 & C2 & C3). exact (rd_fil a T v c v' b fr p bs T0 Hf Hb Ev C1 C2 C3 Hstep).
+Qed.
+
+Lemma f_et_or x y tx v i ty0 : ET 4 x tx -> F_ET 4 x tx -> F_ET 3 y ty0 -> F_ET 3 (EOr x y) (tx ++ tk T_OR v i :: ty0).
+Proof.
+  intros HX IHx IHy a z a' fr p bs T Ho Hd Hf Hsc Hpl H Hfr. apply RunT_app in H as (z1 & z2 & a1 & -> & H1 & H2). apply sc_app in Hsc as [Hsc1 Hsc2].
+  apply plain_app in Hpl as [Hpl1 Hpl2]. inversion Hpl2 as [|? ? _ Hpl3]; subst.
+  destruct (gs_et 4 x tx HX a z1 a1 Ho Hd Hf Hsc1 H1) as (Hf1 & S1 & _).
+  runc H2 k0 a2 bo z' Hs Hbo Hn Ht HR. ftok Hs Hf1. do 4 (apply sc_app in Hsc2 as [_ Hsc2]).
+  destruct (IHx a z1 a1 (bo ++ [124; 124]%N ++ z' ++ fr) p bs T Ho Hd Hf Hsc1 Hpl1 H1 (efol_app bo 124 _ Hbo ltac:(unfold ech; auto 10))) as (t1 & p1 & R1 & HE1).
+  destruct (rd_op a1 T_OR [124; 124]%N 124%N [124%N] bo (z' ++ fr) p1 bs (rev t1 ++ T) Hf1 Hbo eq_refl ltac:(left; unfold ech; auto 10) (fun p1 => sf_or _ _ _ _ p1 bs _)) as (p2 & i2 & R2).
+  destruct (IHy (amode_set a1 MFil) z' a' fr p2 bs (tk T_OR [124; 124]%N i2 :: rev t1 ++ T) (okS_fil a a1 Ho S1) ltac:(destruct S1 as (E & _); cbn [amode_set afd]; lia) (fl_mode_fil a1) Hsc2 Hpl3 HR Hfr)
+    as (t2 & p3 & R3 & HE2).
+  exists (t1 ++ tk T_OR [124; 124]%N i2 :: t2), p3. split; [|constructor; assumption].
+  rewrite rev_snoc_app. eapply reachS_trans; [|exact R3]. eapply reachS_trans; [|exact R2]. retext (z1 ++ bo ++ [124; 124]%N ++ z' ++ fr). exact R1.
+Qed.
+Lemma f_et_34 e t : F_ET 4 e t -> F_ET 3 e t.
+Proof. intros IH a z a' fr p bs T Ho Hd Hf Hsc Hpl H Hfr. destruct (IH a z a' fr p bs T Ho Hd Hf Hsc Hpl H Hfr) as (t' & p' & R & HE). exists t', p'. split; [exact R | apply et_34; exact HE]. Qed.
+Lemma f_et_and x y tx v i ty0 : ET 5 x tx -> F_ET 5 x tx -> F_ET 4 y ty0 -> F_ET 4 (EAnd x y) (tx ++ tk T_AND v i :: ty0).
+Proof.
+  intros HX IHx IHy a z a' fr p bs T Ho Hd Hf Hsc Hpl H Hfr. apply RunT_app in H as (z1 & z2 & a1 & -> & H1 & H2). apply sc_app in Hsc as [Hsc1 Hsc2].
+  apply plain_app in Hpl as [Hpl1 Hpl2]. inversion Hpl2 as [|? ? _ Hpl3]; subst.
+  destruct (gs_et 5 x tx HX a z1 a1 Ho Hd Hf Hsc1 H1) as (Hf1 & S1 & _).
+  runc H2 k0 a2 bo z' Hs Hbo Hn Ht HR. ftok Hs Hf1. do 4 (apply sc_app in Hsc2 as [_ Hsc2]).
+  destruct (IHx a z1 a1 (bo ++ [38; 38]%N ++ z' ++ fr) p bs T Ho Hd Hf Hsc1 Hpl1 H1 (efol_app bo 38 _ Hbo ltac:(unfold ech; auto 10))) as (t1 & p1 & R1 & HE1).
+  destruct (rd_op a1 T_AND [38; 38]%N 38%N [38%N] bo (z' ++ fr) p1 bs (rev t1 ++ T) Hf1 Hbo eq_refl ltac:(left; unfold ech; auto 10) (fun p1 => sf_and _ _ _ _ p1 bs _)) as (p2 & i2 & R2).
+  destruct (IHy (amode_set a1 MFil) z' a' fr p2 bs (tk T_AND [38; 38]%N i2 :: rev t1 ++ T) (okS_fil a a1 Ho S1) ltac:(destruct S1 as (E & _); cbn [amode_set afd]; lia) (fl_mode_fil a1) Hsc2 Hpl3 HR Hfr)
+    as (t2 & p3 & R3 & HE2).
+  exists (t1 ++ tk T_AND [38; 38]%N i2 :: t2), p3. split; [|constructor; assumption].
+  rewrite rev_snoc_app. eapply reachS_trans; [|exact R3]. eapply reachS_trans; [|exact R2]. retext (z1 ++ bo ++ [38; 38]%N ++ z' ++ fr). exact R1.
+Qed.
+Lemma f_et_45 e t : F_ET 5 e t -> F_ET 4 e t.
+Proof. intros IH a z a' fr p bs T Ho Hd Hf Hsc Hpl H Hfr. destruct (IH a z a' fr p bs T Ho Hd Hf Hsc Hpl H Hfr) as (t' & p' & R & HE). exists t', p'. split; [exact R | apply et_45; exact HE]. Qed.
+Lemma f_et_57 e t : F_ET 7 e t -> F_ET 5 e t.
+Proof. intros IH a z a' fr p bs T Ho Hd Hf Hsc Hpl H Hfr. destruct (IH a z a' fr p bs T Ho Hd Hf Hsc Hpl H Hfr) as (t' & p' & R & HE). exists t', p'. split; [exact R | apply et_57; exact HE]. Qed.
+
+Lemma op_head o : exists c v', op_str o = c :: v' /\ ech c.
+Proof. destruct o; cbn [op_str]; eexists; eexists; (split; [reflexivity | unfold ech; auto 10]). Qed.
+
+Lemma f_et_cmp o x y ta v i tb : CT x ta -> CT y tb -> F_CT x ta -> F_CT y tb -> F_ET 5 (ECmp o x y) (ta ++ tk (cmp_tok o) v i :: tb).
+Proof.
+  intros HX HY IHx IHy a z a' fr p bs T Ho Hd Hf Hsc Hpl H Hfr. apply RunT_app in H as (z1 & z2 & a1 & -> & H1 & H2). apply sc_app in Hsc as [Hsc1 Hsc2].
+  apply plain_app in Hpl as [Hpl1 Hpl2]. inversion Hpl2 as [|? ? _ Hpl3]; subst.
+  destruct (gs_ct x ta HX a z1 a1 Ho Hd Hf Hsc1 H1) as (Hf1 & S1 & _).
+  apply RunT_cons_inv in H2 as (k0 & a2 & bo & z' & Hs & Hbo & Hn & Ht & HR & ->). cbn [ty tval tk] in Hs, Ht.
+  destruct (cmp_tok_facts o a1 v k0 a2 Hf1 Hs Ht) as (-> & -> & Epre & Epost & Hvn & _). cbn [ty tval tk] in *. rewrite ?Epre, ?Epost in *.
+  assert (Ev : v = op_str o) by (destruct o; cbn [cmp_tok tshape op_str] in *; exact Ht). subst v.
+  do 4 (apply sc_app in Hsc2 as [_ Hsc2]). destruct (op_head o) as (c & v' & Eop & Hc).
+  destruct (IHx a z1 a1 (bo ++ op_str o ++ z' ++ fr) p bs T Ho Hd Hf Hsc1 Hpl1 H1) as (t1 & p1 & R1 & HE1).
+  { rewrite Eop. cbn [app]. apply efol_app; assumption. }
+  destruct (ct_head y tb (amode_set a1 MFil) z' a' HY Hpl3 (fl_mode_fil a1) HR) as (c2 & r2 & Ez' & Hc2).
+  destruct (rd_op a1 (cmp_tok o) (op_str o) c v' bo (z' ++ fr) p1 bs (rev t1 ++ T) Hf1 Hbo Eop (or_introl Hc)) as (p2 & i2 & R2).
+  { intros p0. rewrite Ez'. cbn [app]. apply sf_cmp_g. intros _. exact Hc2. }
+  destruct (IHy (amode_set a1 MFil) z' a' fr p2 bs (tk (cmp_tok o) (op_str o) i2 :: rev t1 ++ T) (okS_fil a a1 Ho S1) ltac:(destruct S1 as (E & _); cbn [amode_set afd]; lia) (fl_mode_fil a1) Hsc2 Hpl3 HR Hfr)
+    as (t2 & p3 & R3 & HE2).
+  exists (t1 ++ tk (cmp_tok o) (op_str o) i2 :: t2), p3. split; [|constructor; assumption].
+  rewrite rev_snoc_app. eapply reachS_trans; [|exact R3]. eapply reachS_trans; [|exact R2]. retext (z1 ++ bo ++ op_str o ++ z' ++ fr). exact R1.
+Qed.
+
+(* parentheses *)
+Lemma rd_lparen a b fr p bs T : fl a -> blanks b ->
+  exists p' i j, reachS (st_of a) (LA a (b ++ [40%N] ++ fr) p bs T) Lex.SFilter (LA (mkA MFil (afd a) (affd a) (bump (afcs a))) fr p' ((40%N, j) :: bs) (tk T_LPAREN [40%N] i :: T)).
+Proof.
+  intros Hf Hb. cbn [app]. destruct (to_fil a b 40 fr p bs T Hf Hb eq_refl ltac:(discriminate) ltac:(discriminate)) as (p1 & R1).
+  eexists; eexists; eexists. eapply reachS_trans; [exact R1|]. apply reachS_step. unfold LA, G. cbn [afd affd afcs]. apply sf_lparen.
+Qed.
+Lemma rd_rparen a b fr p j bs T : fl a -> blanks b ->
+  exists p' i, reachS (st_of a) (LA a (b ++ [41%N] ++ fr) p ((40%N, j) :: bs) T) Lex.SFilter (LA (mkA MFil (afd a) (affd a) (unbump (afcs a))) fr p' bs (tk T_RPAREN [41%N] i :: T)).
+Proof.
+  intros Hf Hb. cbn [app]. destruct (to_fil a b 41 fr p ((40%N, j) :: bs) T Hf Hb eq_refl ltac:(discriminate) ltac:(discriminate)) as (p1 & R1).
+  eexists; eexists. eapply reachS_trans; [exact R1|]. apply reachS_step. unfold LA, G. cbn [afd affd afcs]. apply sf_rparen.
+Qed.
+
+Lemma f_paren_core e t v1 i1 v2 i2 : ET 3 e t -> F_ET 3 e t -> forall a z a' fr p bs T, okS a -> 1 <= afd a -> fl a -> sc z -> plain (tk T_LPAREN v1 i1 :: t ++ [tk T_RPAREN v2 i2]) ->
+  RunT a (tk T_LPAREN v1 i1 :: t ++ [tk T_RPAREN v2 i2]) z a' ->
+  exists t' p' j1 j2, reachS (st_of a) (LA a (z ++ fr) p bs T) (st_of a') (LA a' fr p' bs (tk T_RPAREN [41%N] j2 :: rev t' ++ tk T_LPAREN [40%N] j1 :: T)) /\ ET 3 e t'.
+Proof.
+  intros HE IH a z a' fr p bs T Ho Hd Hf Hsc Hpl H. runc H k0 a1 b z' Hs Hb Hn Ht HR. ftok Hs Hf. fold (bump (afcs a)) in HR.
+  apply RunT_app in HR as (z1 & z2 & a2 & -> & H1 & H2). do 4 (apply sc_app in Hsc as [_ Hsc]). apply sc_app in Hsc as [Hsc1 Hsc2].
+  inversion Hpl as [|? ? _ Hpl1]; subst. apply plain_app in Hpl1 as [Hpl2 _].
+  destruct (gs_et 3 e t HE _ z1 a2 (okS_bump a Ho) Hd (or_introl eq_refl) Hsc1 H1) as (Hf2 & (S1 & S2 & S3) & _). cbn [afd affd afcs] in S1, S2, S3.
+  runc H2 k1 a3 b2 z'' Hs2 Hb2 Hn2 Ht2 HR2. runnil HR2. ftok Hs2 Hf2. rewrite S3. fold (unbump (bump (afcs a))). rewrite (unbump_bump _ (proj1 Ho)).
+  destruct (rd_lparen a b ((z1 ++ b2 ++ [41%N]) ++ fr) p bs T Hf Hb) as (p1 & i1' & j & R1).
+  destruct (IH _ z1 a2 (b2 ++ [41%N] ++ fr) p1 ((40%N, j) :: bs) (tk T_LPAREN [40%N] i1' :: T) (okS_bump a Ho) Hd (or_introl eq_refl) Hsc1 Hpl2 H1 (efol_app b2 41 fr Hb2 ltac:(unfold ech; auto 10))) as (t' & p2 & R2 & HE').
+  destruct (rd_rparen a2 b2 fr p2 j bs (rev t' ++ tk T_LPAREN [40%N] i1' :: T) Hf2 Hb2) as (p3 & i3 & R3).
+  exists t', p3, i1', i3. split; [|exact HE'].
+  assert (Eu : unbump (afcs a2) = afcs a) by (rewrite S3; apply unbump_bump; exact (proj1 Ho)). rewrite Eu in R3.
+  eapply reachS_trans; [|exact R3]. eapply reachS_trans; [|exact R2].
+  replace (z1 ++ b2 ++ [41%N] ++ fr) with ((z1 ++ b2 ++ [41%N]) ++ fr) by (rewrite <- !app_assoc; reflexivity).
+  retext (b ++ [40%N] ++ (z1 ++ b2 ++ [41%N]) ++ fr). exact R1.
+Qed.
+
+Lemma rev_paren (x : token) (t : list token) (y : token) (T : list token) : rev (x :: t ++ [y]) ++ T = y :: rev t ++ x :: T.
+Proof. cbn [rev]. rewrite rev_app_distr. cbn [rev app]. rewrite <- !app_assoc. reflexivity. Qed.
+
+Lemma f_paren e t v1 i1 v2 i2 : ET 3 e t -> F_ET 3 e t -> F_ET 7 e (tk T_LPAREN v1 i1 :: t ++ [tk T_RPAREN v2 i2]).
+Proof.
+  intros HE IH a z a' fr p bs T Ho Hd Hf Hsc Hpl H Hfr.
+  destruct (f_paren_core e t v1 i1 v2 i2 HE IH a z a' fr p bs T Ho Hd Hf Hsc Hpl H) as (t' & p' & j1 & j2 & R & HE').
+  exists (tk T_LPAREN [40%N] j1 :: t' ++ [tk T_RPAREN [41%N] j2]), p'. split; [rewrite rev_paren; exact R | constructor; exact HE'].
+Qed.
+Lemma f_not_paren x t v0 i0 v1 i1 v2 i2 : ET 3 x t -> F_ET 3 x t -> F_ET 7 (ENot x) (tk T_NOT v0 i0 :: tk T_LPAREN v1 i1 :: t ++ [tk T_RPAREN v2 i2]).
+Proof.
+  intros HE IH a z a' fr p bs T Ho Hd Hf Hsc Hpl H Hfr. runc H k0 a1 b z' Hs Hb Hn Ht HR. ftok Hs Hf. do 4 (apply sc_app in Hsc as [_ Hsc]). inversion Hpl as [|? ? _ Hpl1]; subst.
+  assert (Hne : ne61 (z' ++ fr)).
+  { pose proof HR as HR'. runc HR' k1 a2 b1 z'' Hs1 Hb1 Hn1 Ht1 HR1. rewrite <- app_assoc. apply ne61_blank; [exact Hb1|]. ftok Hs1 (fl_mode_fil a). eexists; eexists. split; [reflexivity | discriminate]. }
+  destruct Hne as (c2 & r2 & Ez & Hc2).
+  destruct (rd_op a T_NOT [33%N] 33%N [] b (z' ++ fr) p bs T Hf Hb eq_refl ltac:(left; unfold ech; auto 10)) as (p1 & i1' & R1).
+  { intros p0. rewrite Ez. cbn [app]. eexists. apply sf_not. exact Hc2. }
+  destruct (f_paren_core x t v1 i1 v2 i2 HE IH (amode_set a MFil) z' a' fr p1 bs (tk T_NOT [33%N] i1' :: T) (okS_same _ _ (same_stk_mode a MFil) Ho) Hd (fl_mode_fil a) Hsc Hpl1 HR)
+    as (t' & p' & j1 & j2 & R & HE').
+  exists (tk T_NOT [33%N] i1' :: tk T_LPAREN [40%N] j1 :: t' ++ [tk T_RPAREN [41%N] j2]), p'. split; [|constructor; exact HE'].
+  replace (rev (tk T_NOT [33%N] i1' :: tk T_LPAREN [40%N] j1 :: t' ++ [tk T_RPAREN [41%N] j2]) ++ T) with (tk T_RPAREN [41%N] j2 :: rev t' ++ tk T_LPAREN [40%N] j1 :: tk T_NOT [33%N] i1' :: T)
+    by (cbn [rev]; rewrite rev_app_distr; cbn [rev app]; rewrite <- !app_assoc; reflexivity).
+  eapply reachS_trans; [|exact R]. retext (b ++ [33%N] ++ z' ++ fr). exact R1.
+Qed.
+Lemma f_not_test x t v0 i0 : TT TLogical x t -> F_TT TLogical x t -> F_ET 7 (ENot x) (tk T_NOT v0 i0 :: t).
+Proof.
+  intros HT IH a z a' fr p bs T Ho Hd Hf Hsc Hpl H Hfr. runc H k0 a1 b z' Hs Hb Hn Ht HR. ftok Hs Hf. do 4 (apply sc_app in Hsc as [_ Hsc]). inversion Hpl as [|? ? _ Hpl1]; subst.
+  destruct (tt_head TLogical x t (amode_set a MFil) z' a' HT (fl_mode_fil a) HR) as (c2 & r2 & Ez & Hc2).
+  destruct (rd_op a T_NOT [33%N] 33%N [] b (z' ++ fr) p bs T Hf Hb eq_refl ltac:(left; unfold ech; auto 10)) as (p1 & i1' & R1).
+  { intros p0. rewrite Ez. cbn [app]. eexists. apply sf_not. exact Hc2. }
+  destruct (IH (amode_set a MFil) z' a' fr p1 bs (tk T_NOT [33%N] i1' :: T) (okS_same _ _ (same_stk_mode a MFil) Ho) Hd (fl_mode_fil a) Hsc Hpl1 HR Hfr) as (t' & p' & R & HT').
+  exists (tk T_NOT [33%N] i1' :: t'), p'. split; [|constructor; exact HT'].
+  replace (rev (tk T_NOT [33%N] i1' :: t') ++ T) with (rev t' ++ tk T_NOT [33%N] i1' :: T) by (cbn [rev]; rewrite <- app_assoc; reflexivity).
+  eapply reachS_trans; [|exact R]. retext (b ++ [33%N] ++ z' ++ fr). exact R1.
+Qed.
+Lemma f_et_test x t : F_TT TLogical x t -> F_ET 7 x t.
+Proof. intros IH a z a' fr p bs T Ho Hd Hf Hsc Hpl H Hfr. destruct (IH a z a' fr p bs T Ho Hd Hf Hsc Hpl H Hfr) as (t' & p' & R & HT). exists t', p'. split; [exact R | apply et_test; exact HT]. Qed.
+Lemma f_ct_test x t : F_TT TValue x t -> F_CT x t.
+Proof. intros IH a z a' fr p bs T Ho Hd Hf Hsc Hpl H Hfr. destruct (IH a z a' fr p bs T Ho Hd Hf Hsc Hpl H Hfr) as (t' & p' & R & HT). exists t', p'. split; [exact R | apply ct_test; exact HT]. Qed.
+
+(* @ segments, $ segments *)
+Lemma f_tt_query (rel : bool) want q t v i : QT q t -> F_QT q t -> (want = TValue -> singular q = true) ->
+  F_TT want (if rel then ERel q else EAbs q) (tk (if rel then T_CURRENT else T_ROOT) v i :: t).
+Proof.
+  intros HQ0 IH Hsing a z a' fr p bs T Ho Hd Hf Hsc Hpl H Hfr. runc H k0 a1 b z' Hs Hb Hn Ht HR.
+  assert (Hst : k0 = GBl /\ a1 = amode_set a MSeg /\ v = [if rel then 64%N else 36%N]).
+  { destruct rel; cbn [tshape] in Ht; ftok Hs Hf; repeat split; reflexivity. }
+  destruct Hst as (-> & -> & ->). do 4 (apply sc_app in Hsc as [_ Hsc]). inversion Hpl as [|? ? _ Hpl1]; subst.
+  assert (Ho1 : okS (amode_set a MSeg)) by (apply (okS_same a); [apply same_stk_mode | exact Ho]).
+  destruct (gs_qt q t HQ0 (amode_set a MSeg) z' a' Ho1 eq_refl Hsc HR) as [-> _].
+  assert (Hrd : exists p1 i1, reachS (st_of a) (LA a (b ++ [if rel then 64%N else 36%N] ++ z' ++ fr) p bs T) SSegment (LA a (z' ++ fr) p1 bs (tk (if rel then T_CURRENT else T_ROOT) [if rel then 64%N else 36%N] i1 :: T))).
+  { cbn [app]. destruct (to_fil a b (if rel then 64%N else 36%N) (z' ++ fr) p bs T Hf Hb ltac:(destruct rel; reflexivity) ltac:(destruct rel; discriminate) ltac:(destruct rel; discriminate)) as (p1 & R1).
+    eexists; eexists. eapply reachS_trans; [exact R1|]. apply reachS_step. unfold LA, G. destruct rel; [apply sf_current | apply sf_root]. }
+  destruct Hrd as (p1 & i1 & R1).
+  destruct (IH (amode_set a MSeg) z' (amode_set a MSeg) fr p1 bs (tk (if rel then T_CURRENT else T_ROOT) [if rel then 64%N else 36%N] i1 :: T) Ho1 eq_refl Hsc Hpl1 HR (efol_nn fr Hfr)) as (t' & p' & R & HQ & _).
+  exists (tk (if rel then T_CURRENT else T_ROOT) [if rel then 64%N else 36%N] i1 :: t'), p'. split.
+  - replace (rev (tk (if rel then T_CURRENT else T_ROOT) [if rel then 64%N else 36%N] i1 :: t') ++ T) with (rev t' ++ tk (if rel then T_CURRENT else T_ROOT) [if rel then 64%N else 36%N] i1 :: T)
+      by (cbn [rev]; rewrite <- app_assoc; reflexivity).
+    eapply reachS_trans; [|exact R]. destruct rel; [retext (b ++ [64%N] ++ z' ++ fr) | retext (b ++ [36%N] ++ z' ++ fr)]; exact R1.
+  - destruct rel; constructor; assumption.
+Qed.
+
+(* function calls *)
+Lemma lang_fname f : lang RE_FUNCTION_NAME f -> exists c cs, f = c :: cs /\ in_ranges c cls_fn_first = true /\ forallb (fun y => in_ranges y cls_fn_char) cs = true.
+Proof.
+  intros H. unfold RE_FUNCTION_NAME in H. apply lang_seq_inv in H as (s1 & s2 & -> & H1 & H2). apply lang_cls_inv in H1 as (c & -> & Hc). apply lang_star_cls in H2.
+  exists c, s2. split; [reflexivity|]. split; [cbn [xorb] in Hc; unfold cls_fn_first; destruct (in_ranges c [(97, 122)]%N); [reflexivity | discriminate Hc] | exact H2].
+Qed.
+Lemma rd_fname a b f fr p bs T : fl a -> blanks b -> lang RE_FUNCTION_NAME f ->
+  exists p' i j, reachS (st_of a) (LA a (b ++ f ++ [40%N] ++ fr) p bs T) Lex.SFilter (LA (mkA MFil (afd a) (affd a) (1 :: afcs a)) fr p' ((40%N, j) :: bs) (tk T_FUNCTION f i :: T)).
+Proof.
+  intros Hf Hb Hl. destruct (lang_fname f Hl) as (c & cs & -> & Hc & Hcs).
+  assert (C : is_blank c = false /\ c <> 46%N /\ c <> 91%N) by (unfold cls_fn_first in Hc; cbn [in_ranges] in Hc; unfold is_blank; repeat split; lia).
+  destruct C as (C1 & C2 & C3). cbn [app]. destruct (to_fil a b c (cs ++ 40%N :: fr) p bs T Hf Hb C1 C2 C3) as (p1 & R1).
+  destruct (sf_fname (afd a) (affd a) (afcs a) c cs fr p1 bs T Hc Hcs) as (q & q' & E).
+  exists q, p1, q'. eapply reachS_trans; [exact R1|]. apply reachS_step. exact E.
+Qed.
+Lemma rd_comma_in a d r0 bc fr p bs T : fl a -> affd a = d :: r0 -> (d <? zlen (afcs a)) = true -> blanks bc ->
+  exists p' i, reachS (st_of a) (LA a (bc ++ [44%N] ++ fr) p bs T) Lex.SFilter (LA a fr p' bs (tk T_COMMA [44%N] i :: T)).
+Proof.
+  intros Hf Effd Hlt Hb. cbn [app]. destruct (to_fil a bc 44 fr p bs T Hf Hb eq_refl ltac:(discriminate) ltac:(discriminate)) as (p1 & R1).
+  eexists; eexists. eapply reachS_trans; [exact R1|]. apply reachS_step. unfold LA, G. rewrite Effd. apply sf_comma_in. exact Hlt.
+Qed.
+
+Lemma f_tt_call want f d args t i v2 i2 : find_assoc f (reg cfg) = Some d -> ret_ok want (f_ret d) = true -> ArgsT (f_args d) args t -> F_ArgsT (f_args d) args t ->
+  F_TT want (ECall f args) (tk T_FUNCTION f i :: t ++ [tk T_RPAREN v2 i2]).
+Proof.
+  intros Ef Hret HA IH a z a' fr p bs T Ho Hd Hf Hsc Hpl H Hfr. runc H k0 a1 b z' Hs Hb Hn Ht HR. ftok Hs Hf.
+  apply RunT_app in HR as (z1 & z2 & a2 & -> & H1 & H2). do 4 (apply sc_app in Hsc as [_ Hsc]). apply sc_app in Hsc as [Hsc1 Hsc2].
+  inversion Hpl as [|? ? _ Hpl1]; subst. apply plain_app in Hpl1 as [Hpl2 _].
+  destruct Ho as (O1 & O2 & O3).
+  assert (Ho1 : okS (mkA MFil (afd a) (affd a) (1 :: afcs a))).
+  { split; [constructor; [lia | exact O1]|]. cbn [affd afcs afd]. split; [intros d0 r E; specialize (O2 d0 r E); unfold zlen in *; cbn [length]; lia | exact O3]. }
+  assert (Hin : incall (mkA MFil (afd a) (affd a) (1 :: afcs a))) by (intros d0 r E; cbn [affd afcs] in *; specialize (O2 d0 r E); unfold zlen in *; cbn [length]; lia).
+  destruct (gs_args _ args t HA _ z1 a2 Ho1 Hd (or_introl eq_refl) Hin Hsc1 H1) as (Hf2 & (S1 & S2 & S3) & _). cbn [afd affd afcs] in S1, S2, S3.
+  runc H2 k1 a3 b2 z'' Hs2 Hb2 Hn2 Ht2 HR2. runnil HR2. ftok Hs2 Hf2. rewrite S3. cbn [Z.eqb Pos.eqb].
+  destruct (rd_fname a b f ((z1 ++ b2 ++ [41%N]) ++ fr) p bs T Hf Hb (pmatch_lang _ _ Ht)) as (p1 & i1' & j & R1).
+  destruct (IH _ z1 a2 (b2 ++ [41%N] ++ fr) p1 ((40%N, j) :: bs) (tk T_FUNCTION f i1' :: T) Ho1 Hd (or_introl eq_refl) Hin Hsc1 Hpl2 H1 (efol_app b2 41 fr Hb2 ltac:(unfold ech; auto 10))) as (t' & p2 & R2 & HA').
+  destruct (rd_rparen a2 b2 fr p2 j bs (rev t' ++ tk T_FUNCTION f i1' :: T) Hf2 Hb2) as (p3 & i3 & R3).
+  assert (Eu : unbump (afcs a2) = afcs a) by (rewrite S3; reflexivity). rewrite Eu in R3.
+  exists (tk T_FUNCTION f i1' :: t' ++ [tk T_RPAREN [41%N] i3]), p3. split; [|econstructor; eassumption].
+  rewrite rev_paren. eapply reachS_trans; [|exact R3]. eapply reachS_trans; [|exact R2].
+  replace (z1 ++ b2 ++ [41%N] ++ fr) with ((z1 ++ b2 ++ [41%N]) ++ fr) by (rewrite <- !app_assoc; reflexivity).
+  retext (b ++ f ++ [40%N] ++ (z1 ++ b2 ++ [41%N]) ++ fr). exact R1.
+Qed.
+
+Lemma f_as_nil : F_ArgsT [] [] [].
+Proof. intros a z a' fr p bs T Ho Hd Hf Hin Hsc Hpl H Hfr. runnil H. exists [], p. split; [apply reachS_refl | constructor]. Qed.
+Lemma f_as_one w e ta : F_ArgT w e ta -> F_ArgsT [w] [e] ta.
+Proof. intros IH a z a' fr p bs T Ho Hd Hf Hin Hsc Hpl H Hfr. destruct (IH a z a' fr p bs T Ho Hd Hf Hsc Hpl H Hfr) as (t' & p' & R & HA). exists t', p'. split; [exact R | constructor; exact HA]. Qed.
+Lemma f_as_cons w e ta v i tys args targs : ArgT w e ta -> F_ArgT w e ta -> F_ArgsT tys args targs -> args <> [] -> F_ArgsT (w :: tys) (e :: args) (ta ++ tk T_COMMA v i :: targs).
+Proof.
+  intros HA0 IHa IHr Hne a z a' fr p bs T Ho Hd Hf Hin Hsc Hpl H Hfr. apply RunT_app in H as (z1 & z2 & a1 & -> & H1 & H2). apply sc_app in Hsc as [Hsc1 Hsc2].
+  apply plain_app in Hpl as [Hpl1 Hpl2]. inversion Hpl2 as [|? ? _ Hpl3]; subst.
+  destruct (gs_arg w e ta HA0 a z1 a1 Ho Hd Hf Hsc1 H1) as (Hf1 & S1 & _).
+  runc H2 k0 a2 bc z' Hs Hbc Hn Ht HR. apply (fl_step _ _ _ _ Hf1) in Hs; [|discriminate|discriminate]. cbn [fil_step] in Hs.
+  destruct S1 as (E1 & E2 & E3). destruct (affd a1) as [|d0 r0] eqn:Effd; [discriminate Hs|].
+  assert (Hlt : d0 <? zlen (afcs a1) = true) by (rewrite E3; pose proof (Hin d0 r0 (eq_sym E2)); lia).
+  rewrite Hlt in Hs. inversion Hs; subst k0 a2. clear Hs. subst v. do 4 (apply sc_app in Hsc2 as [_ Hsc2]).
+  assert (S1' : same_stk a (amode_set a1 MFil)) by (repeat split; cbn [amode_set afd affd afcs]; congruence).
+  destruct (IHa a z1 a1 (bc ++ [44%N] ++ z' ++ fr) p bs T Ho Hd Hf Hsc1 Hpl1 H1 (efol_app bc 44 _ Hbc ltac:(unfold ech; auto 10))) as (t1 & p1 & R1 & HA1).
+  destruct (rd_comma_in a1 d0 r0 bc (z' ++ fr) p1 bs (rev t1 ++ T) Hf1 Effd Hlt Hbc) as (p2 & i2 & R2).
+  destruct (IHr (amode_set a1 MFil) z' a' fr p2 bs (tk T_COMMA [44%N] i2 :: rev t1 ++ T) (okS_same _ _ S1' Ho) ltac:(cbn [amode_set afd]; lia) (fl_mode_fil a1)
+              ltac:(intros d1 r1 E; cbn [amode_set affd afcs] in *; rewrite E3; apply (Hin d1 r1); congruence) Hsc2 Hpl3 HR Hfr) as (t2 & p3 & R3 & HA2).
+  exists (t1 ++ tk T_COMMA [44%N] i2 :: t2), p3. split; [|constructor; assumption].
+  rewrite rev_snoc_app. eapply reachS_trans; [|exact R3]. eapply reachS_trans; [|exact R2]. retext (z1 ++ bc ++ [44%N] ++ z' ++ fr). exact R1.
+Qed.
+Lemma f_ar_value e t : F_CT e t -> F_ArgT TValue e t.
+Proof. intros IH a z a' fr p bs T Ho Hd Hf Hsc Hpl H Hfr. destruct (IH a z a' fr p bs T Ho Hd Hf Hsc Hpl H Hfr) as (t' & p' & R & HC). exists t', p'. split; [exact R | constructor; exact HC]. Qed.
+Lemma f_ar_nodes e t : F_TT TNodes e t -> F_ArgT TNodes e t.
+Proof. intros IH a z a' fr p bs T Ho Hd Hf Hsc Hpl H Hfr. destruct (IH a z a' fr p bs T Ho Hd Hf Hsc Hpl H Hfr) as (t' & p' & R & HC). exists t', p'. split; [exact R | constructor; exact HC]. Qed.
+Lemma f_ar_logical e t : F_ET 3 e t -> F_ArgT TLogical e t.
+Proof. intros IH a z a' fr p bs T Ho Hd Hf Hsc Hpl H Hfr. destruct (IH a z a' fr p bs T Ho Hd Hf Hsc Hpl H Hfr) as (t' & p' & R & HC). exists t', p'. split; [exact R | constructor; exact HC]. Qed.
+
+Theorem lex_all :
+  (forall q t, QT q t -> F_QT q t) /\ (forall g t, SegT g t -> F_SegT g t) /\ (forall ss t, SelsT ss t -> F_SelsT ss t) /\ (forall s t, SelT s t -> F_SelT s t) /\
+  (forall k e t, ET k e t -> F_ET k e t) /\ (forall e t, CT e t -> F_CT e t) /\ (forall w e t, TT w e t -> F_TT w e t) /\
+  (forall tys args t, ArgsT tys args t -> F_ArgsT tys args t) /\ (forall w a t, ArgT w a t -> F_ArgT w a t).
+Proof.
+  apply grammar_mutind.
+  - exact f_qt_nil.
+  - intros g tg q tq HG Hg _ Hq. apply f_qt_cons; assumption.
+  - exact f_sg_prop.
+  - exact f_sg_wild.
+  - intros ss t v1 i1 v2 i2 HS H. apply f_sg_br; assumption.
+  - exact f_sg_dprop.
+  - exact f_sg_dwild.
+  - intros ss t v0 i0 v1 i1 v2 i2 HS H. apply f_sg_dbr; assumption.
+  - intros s t _ H. apply f_ss_one; exact H.
+  - intros s t v i rest trest HS H _ Hr. apply f_ss_cons; assumption.
+  - exact f_name.
+  - exact f_index.
+  - exact f_slice.
+  - exact f_wild.
+  - intros e t v i _ H. apply f_filter; exact H.
+  - intros x y tx v i ty0 HX Hx _ Hy. apply f_et_or; assumption.
+  - intros e t _ H. apply f_et_34; exact H.
+  - intros x y tx v i ty0 HX Hx _ Hy. apply f_et_and; assumption.
+  - intros e t _ H. apply f_et_45; exact H.
+  - intros o a b ta v i tb HA Ha HB Hb. apply f_et_cmp; assumption.
+  - intros e t _ H. apply f_et_57; exact H.
+  - intros e t v1 i1 v2 i2 HE H. apply f_paren; assumption.
+  - intros x t v0 i0 v1 i1 v2 i2 HE H. apply f_not_paren; assumption.
+  - intros x t v0 i0 HT H. apply f_not_test; assumption.
+  - intros x t _ H. apply f_et_test; exact H.
+  - exact f_ct_lit.
+  - intros x t _ H. apply f_ct_test; exact H.
+  - intros want q t v i HQ Hq Hs. apply (f_tt_query true want q t v i HQ Hq Hs).
+  - intros want q t v i HQ Hq Hs. apply (f_tt_query false want q t v i HQ Hq Hs).
+  - intros want f d args t i v2 i2 Ef Hr HA H. eapply f_tt_call; eassumption.
+  - exact f_as_nil.
+  - intros t a ta _ H. apply f_as_one; exact H.
+  - intros t a ta v i tys args targs HA Ha _ Hr Hne. apply f_as_cons; assumption.
+  - intros a t _ H. apply f_ar_value; exact H.
+  - intros a t _ H. apply f_ar_nodes; exact H.
+  - intros a t _ H. apply f_ar_logical; exact H.
+Qed.
+End FULL.
+
+(* EVERY SPELLING OF EVERY QUERY COMPILES, TO THAT QUERY (number literals: sign, digits and an optional fraction; no exponent part). *)
+Theorem spelled_compiles cfg q t z a' : QT cfg q t -> plain t -> sc z -> RunT a0 t z a' -> m_compile cfg (36%N :: z) = Ok q.
+Proof.
+  intros HQ Hpl Hsc HR.
+  destruct (proj1 (lex_all cfg) q t HQ a0 z a' [] 1 [] [tk T_ROOT [36%N] 0] okS_a0 eq_refl Hsc Hpl HR I) as (t' & p' & R & HQ' & _). rewrite app_nil_r in R.
+  assert (R0 : reachS SRoot (lexer_init (36%N :: z)) SSegment (G 0 [] [] [] p' [] (rev t' ++ [tk T_ROOT [36%N] 0]))).
+  { eapply reachS_trans; [apply reachS_step; apply (Requery.step_root 0 [] [] z)|]. exact R. }
+  destruct (reachS_stop _ _ _ _ _ R0 (Requery.step_seg_eof 0 [] [] [] p' _)) as [n Hn].
+  assert (Etok : m_tokenize (36%N :: z) = Ok (tk T_ROOT [36%N] 0 :: t' ++ [tk T_EOF [] p'])).
+  { unfold m_tokenize. destruct (lex_run_of_steps n _ _ _ Hn (lex_fuel (36%N :: z))) as [E | E]; [|exfalso; exact (lex_run_init_terminates _ E)].
+    rewrite E. cbn [bind l_toks l_bs LX]. change (ttype_eqb (ty (tk T_EOF [] p')) T_ERROR) with false. cbv iota. cbn [rev]. rewrite rev_app_distr, rev_involutive. reflexivity. }
+  unfold m_compile. rewrite Etok. cbn [bind]. destruct (parse_complete cfg q t' [36%N] 0 [] p' HQ') as [s Hs]. rewrite Hs. reflexivity.
+Qed.
+Print Assumptions spelled_compiles.
+
+(* so compile() accepts exactly the spellings (of token sequences with such numbers), and returns the query spelled *)
+Theorem compile_iff_spelled cfg q z : sc z ->
+  ((exists t a', QT cfg q t /\ plain t /\ RunT a0 t z a') -> m_compile cfg (36%N :: z) = Ok q) /\
+  (m_compile cfg (36%N :: z) = Ok q -> exists t a', QT cfg q t /\ RunT a0 t z a').
+Proof.
+  intros Hsc. split.
+  - intros (t & a' & HQ & Hpl & HR). exact (spelled_compiles cfg q t z a' HQ Hpl Hsc HR).
+  - intros Hc. destruct (compiles_spelled cfg _ q Hc) as (t & z' & a' & E & HQ & HR). inversion E; subst z'. exists t, a'. split; assumption.
 Qed.
